@@ -1,83 +1,346 @@
 // auto-generated: "lalrpop 0.23.1"
-// sha3: 435f3703ce4305a021d052a0330d1743f7639df49ea3f5f2bd45e6cf8114d164
+// sha3: 8d46dfd63bd0411c73c54bfe9bc8cd057c679c9824fe70081fa7cc5f71c80cad
 use crate::rt::*;
 #[allow(unused_extern_crates)]
-extern crate lalrpop_util as ___lalrpop_util;
+extern crate lalrpop_util as __lalrpop_util;
 #[allow(unused_imports)]
-use self::___lalrpop_util::state_machine as ___state_machine;
+use self::__lalrpop_util::state_machine as __state_machine;
 #[allow(unused_extern_crates)]
 extern crate alloc;
 
 #[rustfmt::skip]
 #[allow(explicit_outlives_requirements, non_snake_case, non_camel_case_types, unused_mut, unused_variables, unused_imports, unused_parens, clippy::needless_lifetimes, clippy::type_complexity, clippy::needless_return, clippy::too_many_arguments, clippy::match_single_binding, clippy::clone_on_copy, clippy::unit_arg)]
-mod ___parse_______x {
+mod __parse__E {
 
     use crate::rt::*;
     #[allow(unused_extern_crates)]
-    extern crate lalrpop_util as ___lalrpop_util;
+    extern crate lalrpop_util as __lalrpop_util;
     #[allow(unused_imports)]
-    use self::___lalrpop_util::state_machine as ___state_machine;
+    use self::__lalrpop_util::state_machine as __state_machine;
     #[allow(unused_extern_crates)]
     extern crate alloc;
-    use super::___ToTriple;
+    use super::__ToTriple;
     #[allow(dead_code)]
-    pub(crate) enum ___Symbol<>
+    pub(crate) enum __Symbol<>
      {
         Variant0(Tok),
         Variant1(i64),
         Variant2(Tree),
     }
-    const ___ACTION: &[i8] = &[
+    const __ACTION: &[i8] = &[
         // State 0
-        4, 0, 0,
+        0, 0, 2, 0, 12, 0,
         // State 1
-        0, 0, -5,
+        0, 0, 2, 0, 12, 0,
         // State 2
-        0, 0, 0,
+        0, 0, 2, 0, 12, 0,
         // State 3
-        0, 2, 0,
+        0, 0, 2, 0, 12, 0,
         // State 4
-        0, 0, 6,
+        0, 0, 2, 0, 12, 0,
         // State 5
-        0, 7, 0,
+        0, 0, 2, 0, 12, 0,
         // State 6
-        0, 0, -6,
+        0, 0, 2, 0, 12, 0,
+        // State 7
+        0, 0, 2, 0, 12, 0,
+        // State 8
+        0, 0, 2, 0, 12, 0,
+        // State 9
+        3, 0, 0, 0, 0, 0,
+        // State 10
+        -6, 13, 0, -6, 0, 0,
+        // State 11
+        0, 0, 0, 0, 16, 15,
+        // State 12
+        0, 0, 4, 0, 18, 0,
+        // State 13
+        3, 0, 0, 19, 0, 0,
+        // State 14
+        0, 0, 0, 0, 20, 0,
+        // State 15
+        -37, -37, 0, -37, 0, 21,
+        // State 16
+        -5, 13, 0, -5, 0, 0,
+        // State 17
+        0, 0, 0, 0, 24, 23,
+        // State 18
+        -41, -41, 0, -41, 0, 0,
+        // State 19
+        -39, -39, 0, -39, 0, 25,
+        // State 20
+        -38, -38, 0, -38, 0, 0,
+        // State 21
+        3, 0, 0, 26, 0, 0,
+        // State 22
+        0, 0, 0, 0, 27, 0,
+        // State 23
+        0, 0, 5, 0, 29, 28,
+        // State 24
+        -40, -40, 0, -40, 0, 0,
+        // State 25
+        0, 0, 6, 0, 30, 0,
+        // State 26
+        0, 0, 7, 0, 32, 31,
+        // State 27
+        0, 0, 8, 0, 34, 0,
+        // State 28
+        0, 0, 0, 0, 36, 35,
+        // State 29
+        0, 0, 0, 0, 39, 38,
+        // State 30
+        0, 0, 9, 0, 41, 0,
+        // State 31
+        0, 0, 0, 0, 43, 42,
+        // State 32
+        3, 0, 0, 44, 0, 0,
+        // State 33
+        0, 0, 0, 0, 47, 46,
+        // State 34
+        0, 0, 0, 0, 48, 0,
+        // State 35
+        -12, -12, 0, -12, 0, 49,
+        // State 36
+        3, 0, 0, 50, 0, 0,
+        // State 37
+        0, 0, 0, 0, 51, 0,
+        // State 38
+        -32, -32, 0, -32, 0, 52,
+        // State 39
+        3, 0, 0, 53, 0, 0,
+        // State 40
+        0, 0, 0, 0, 56, 55,
+        // State 41
+        0, 0, 0, 0, 57, 0,
+        // State 42
+        -22, -22, 0, -22, 0, 58,
+        // State 43
+        -16, -16, 0, -16, 0, 0,
+        // State 44
+        3, 0, 0, 59, 0, 0,
+        // State 45
+        0, 0, 0, 0, 60, 0,
+        // State 46
+        -17, -17, 0, -17, 0, 61,
+        // State 47
+        -14, -14, 0, -14, 0, 62,
+        // State 48
+        -13, -13, 0, -13, 0, 0,
+        // State 49
+        -36, -36, 0, -36, 0, 0,
+        // State 50
+        -34, -34, 0, -34, 0, 63,
+        // State 51
+        -33, -33, 0, -33, 0, 0,
+        // State 52
+        -26, -26, 0, -26, 0, 0,
+        // State 53
+        3, 0, 0, 64, 0, 0,
+        // State 54
+        0, 0, 0, 0, 65, 0,
+        // State 55
+        -27, -27, 0, -27, 0, 66,
+        // State 56
+        -24, -24, 0, -24, 0, 67,
+        // State 57
+        -23, -23, 0, -23, 0, 0,
+        // State 58
+        -21, -21, 0, -21, 0, 0,
+        // State 59
+        -19, -19, 0, -19, 0, 68,
+        // State 60
+        -18, -18, 0, -18, 0, 0,
+        // State 61
+        -15, -15, 0, -15, 0, 0,
+        // State 62
+        -35, -35, 0, -35, 0, 0,
+        // State 63
+        -31, -31, 0, -31, 0, 0,
+        // State 64
+        -29, -29, 0, -29, 0, 69,
+        // State 65
+        -28, -28, 0, -28, 0, 0,
+        // State 66
+        -25, -25, 0, -25, 0, 0,
+        // State 67
+        -20, -20, 0, -20, 0, 0,
+        // State 68
+        -30, -30, 0, -30, 0, 0,
     ];
-    fn ___action(state: i8, integer: usize) -> i8 {
-        ___ACTION[(state as usize) * 3 + integer]
+    fn __action(state: i8, integer: usize) -> i8 {
+        __ACTION[(state as usize) * 6 + integer]
     }
-    const ___EOF_ACTION: &[i8] = &[
+    const __EOF_ACTION: &[i8] = &[
         // State 0
         0,
         // State 1
-        -5,
+        0,
         // State 2
-        -3,
+        0,
         // State 3
         0,
         // State 4
-        -4,
+        0,
         // State 5
         0,
         // State 6
+        0,
+        // State 7
+        0,
+        // State 8
+        0,
+        // State 9
+        -42,
+        // State 10
         -6,
+        // State 11
+        0,
+        // State 12
+        0,
+        // State 13
+        0,
+        // State 14
+        0,
+        // State 15
+        -37,
+        // State 16
+        -5,
+        // State 17
+        0,
+        // State 18
+        -41,
+        // State 19
+        -39,
+        // State 20
+        -38,
+        // State 21
+        0,
+        // State 22
+        0,
+        // State 23
+        0,
+        // State 24
+        -40,
+        // State 25
+        0,
+        // State 26
+        0,
+        // State 27
+        0,
+        // State 28
+        0,
+        // State 29
+        0,
+        // State 30
+        0,
+        // State 31
+        0,
+        // State 32
+        0,
+        // State 33
+        0,
+        // State 34
+        0,
+        // State 35
+        -12,
+        // State 36
+        0,
+        // State 37
+        0,
+        // State 38
+        -32,
+        // State 39
+        0,
+        // State 40
+        0,
+        // State 41
+        0,
+        // State 42
+        -22,
+        // State 43
+        -16,
+        // State 44
+        0,
+        // State 45
+        0,
+        // State 46
+        -17,
+        // State 47
+        -14,
+        // State 48
+        -13,
+        // State 49
+        -36,
+        // State 50
+        -34,
+        // State 51
+        -33,
+        // State 52
+        -26,
+        // State 53
+        0,
+        // State 54
+        0,
+        // State 55
+        -27,
+        // State 56
+        -24,
+        // State 57
+        -23,
+        // State 58
+        -21,
+        // State 59
+        -19,
+        // State 60
+        -18,
+        // State 61
+        -15,
+        // State 62
+        -35,
+        // State 63
+        -31,
+        // State 64
+        -29,
+        // State 65
+        -28,
+        // State 66
+        -25,
+        // State 67
+        -20,
+        // State 68
+        -30,
     ];
-    fn ___goto(state: i8, nt: usize) -> i8 {
+    fn __goto(state: i8, nt: usize) -> i8 {
         match nt {
-            3 => 2,
-            4 => 4,
+            3 => match state {
+                1 => 13,
+                3 => 21,
+                4 => 32,
+                5 => 36,
+                6 => 39,
+                7 => 44,
+                8 => 53,
+                _ => 9,
+            },
+            5 => match state {
+                2 => 16,
+                _ => 10,
+            },
             _ => 0,
         }
     }
     #[allow(clippy::needless_raw_string_hashes)]
-    const ___TERMINAL: &[&str] = &[
-        r###""let""###,
-        r###""id""###,
+    const __TERMINAL: &[&str] = &[
         r###""+""###,
+        r###""*""###,
+        r###""(""###,
+        r###"")""###,
+        r###""x""###,
+        r###""q""###,
     ];
-    fn ___expected_tokens(___state: i8) -> alloc::vec::Vec<alloc::string::String> {
-        ___TERMINAL.iter().enumerate().filter_map(|(index, terminal)| {
-            let next_state = ___action(___state, index);
+    fn __expected_tokens(__state: i8) -> alloc::vec::Vec<alloc::string::String> {
+        __TERMINAL.iter().enumerate().filter_map(|(index, terminal)| {
+            let next_state = __action(__state, index);
             if next_state == 0 {
                 None
             } else {
@@ -85,33 +348,33 @@ mod ___parse_______x {
             }
         }).collect()
     }
-    fn ___expected_tokens_from_states<
+    fn __expected_tokens_from_states<
     >(
-        ___states: &[i8],
+        __states: &[i8],
         _: core::marker::PhantomData<()>,
     ) -> alloc::vec::Vec<alloc::string::String>
     {
-        ___TERMINAL.iter().enumerate().filter_map(|(index, terminal)| {
-            if ___accepts(None, ___states, Some(index), core::marker::PhantomData::<()>) {
+        __TERMINAL.iter().enumerate().filter_map(|(index, terminal)| {
+            if __accepts(None, __states, Some(index), core::marker::PhantomData::<()>) {
                 Some(alloc::string::ToString::to_string(terminal))
             } else {
                 None
             }
         }).collect()
     }
-    struct ___StateMachine<>
+    struct __StateMachine<>
     where 
     {
-        ___phantom: core::marker::PhantomData<()>,
+        __phantom: core::marker::PhantomData<()>,
     }
-    impl<> ___state_machine::ParserDefinition for ___StateMachine<>
+    impl<> __state_machine::ParserDefinition for __StateMachine<>
     where 
     {
         type Location = i64;
         type Error = u64;
         type Token = Tok;
         type TokenIndex = usize;
-        type Symbol = ___Symbol<>;
+        type Symbol = __Symbol<>;
         type Success = Tree;
         type StateIndex = i8;
         type Action = i8;
@@ -130,39 +393,39 @@ mod ___parse_______x {
 
         #[inline]
         fn token_to_index(&self, token: &Self::Token) -> Option<usize> {
-            ___token_to_integer(token, core::marker::PhantomData::<()>)
+            __token_to_integer(token, core::marker::PhantomData::<()>)
         }
 
         #[inline]
         fn action(&self, state: i8, integer: usize) -> i8 {
-            ___action(state, integer)
+            __action(state, integer)
         }
 
         #[inline]
         fn error_action(&self, state: i8) -> i8 {
-            ___action(state, 3 - 1)
+            __action(state, 6 - 1)
         }
 
         #[inline]
         fn eof_action(&self, state: i8) -> i8 {
-            ___EOF_ACTION[state as usize]
+            __EOF_ACTION[state as usize]
         }
 
         #[inline]
         fn goto(&self, state: i8, nt: usize) -> i8 {
-            ___goto(state, nt)
+            __goto(state, nt)
         }
 
         fn token_to_symbol(&self, token_index: usize, token: Self::Token) -> Self::Symbol {
-            ___token_to_symbol(token_index, token, core::marker::PhantomData::<()>)
+            __token_to_symbol(token_index, token, core::marker::PhantomData::<()>)
         }
 
         fn expected_tokens(&self, state: i8) -> alloc::vec::Vec<alloc::string::String> {
-            ___expected_tokens(state)
+            __expected_tokens(state)
         }
 
         fn expected_tokens_from_states(&self, states: &[i8]) -> alloc::vec::Vec<alloc::string::String> {
-            ___expected_tokens_from_states(states, core::marker::PhantomData::<()>)
+            __expected_tokens_from_states(states, core::marker::PhantomData::<()>)
         }
 
         #[inline]
@@ -173,7 +436,7 @@ mod ___parse_______x {
         #[inline]
         fn error_recovery_symbol(
             &self,
-            recovery: ___state_machine::ErrorRecovery<Self>,
+            recovery: __state_machine::ErrorRecovery<Self>,
         ) -> Self::Symbol {
             panic!("error recovery not enabled for this grammar")
         }
@@ -183,9 +446,9 @@ mod ___parse_______x {
             action: i8,
             start_location: Option<&Self::Location>,
             states: &mut alloc::vec::Vec<i8>,
-            symbols: &mut alloc::vec::Vec<___state_machine::SymbolTriple<Self>>,
-        ) -> Option<___state_machine::ParseResult<Self>> {
-            ___reduce(
+            symbols: &mut alloc::vec::Vec<__state_machine::SymbolTriple<Self>>,
+        ) -> Option<__state_machine::ParseResult<Self>> {
+            __reduce(
                 action,
                 start_location,
                 states,
@@ -194,518 +457,3080 @@ mod ___parse_______x {
             )
         }
 
-        fn simulate_reduce(&self, action: i8) -> ___state_machine::SimulatedReduce<Self> {
-            ___simulate_reduce(action, core::marker::PhantomData::<()>)
+        fn simulate_reduce(&self, action: i8) -> __state_machine::SimulatedReduce<Self> {
+            __simulate_reduce(action, core::marker::PhantomData::<()>)
         }
     }
-    fn ___token_to_integer<
+    fn __token_to_integer<
     >(
-        ___token: &Tok,
+        __token: &Tok,
         _: core::marker::PhantomData<()>,
     ) -> Option<usize>
     {
         #[warn(unused_variables)]
-        match ___token {
+        match __token {
             Tok('a', _, _, _) if true => Some(0),
             Tok('b', _, _, _) if true => Some(1),
             Tok('c', _, _, _) if true => Some(2),
+            Tok('d', _, _, _) if true => Some(3),
+            Tok('e', _, _, _) if true => Some(4),
+            Tok('f', _, _, _) if true => Some(5),
             _ => None,
         }
     }
-    fn ___token_to_symbol<
+    fn __token_to_symbol<
     >(
-        ___token_index: usize,
-        ___token: Tok,
+        __token_index: usize,
+        __token: Tok,
         _: core::marker::PhantomData<()>,
-    ) -> ___Symbol<>
+    ) -> __Symbol<>
     {
-        #[allow(clippy::manual_range_patterns)]match ___token_index {
-            0 | 1 | 2 => ___Symbol::Variant0(___token),
+        #[allow(clippy::manual_range_patterns)]match __token_index {
+            0 | 1 | 2 | 3 | 4 | 5 => __Symbol::Variant0(__token),
             _ => unreachable!(),
         }
     }
-    fn ___simulate_reduce<
+    fn __simulate_reduce<
     >(
-        ___reduce_index: i8,
+        __reduce_index: i8,
         _: core::marker::PhantomData<()>,
-    ) -> ___state_machine::SimulatedReduce<___StateMachine<>>
+    ) -> __state_machine::SimulatedReduce<__StateMachine<>>
     {
-        match ___reduce_index {
+        match __reduce_index {
             0 => {
-                ___state_machine::SimulatedReduce::Reduce {
+                __state_machine::SimulatedReduce::Reduce {
                     states_to_pop: 0,
                     nonterminal_produced: 0,
                 }
             }
             1 => {
-                ___state_machine::SimulatedReduce::Reduce {
+                __state_machine::SimulatedReduce::Reduce {
                     states_to_pop: 0,
                     nonterminal_produced: 1,
                 }
             }
-            2 => ___state_machine::SimulatedReduce::Accept,
+            2 => {
+                __state_machine::SimulatedReduce::Reduce {
+                    states_to_pop: 1,
+                    nonterminal_produced: 2,
+                }
+            }
             3 => {
-                ___state_machine::SimulatedReduce::Reduce {
+                __state_machine::SimulatedReduce::Reduce {
+                    states_to_pop: 2,
+                    nonterminal_produced: 2,
+                }
+            }
+            4 => {
+                __state_machine::SimulatedReduce::Reduce {
                     states_to_pop: 3,
                     nonterminal_produced: 3,
                 }
             }
-            4 => {
-                ___state_machine::SimulatedReduce::Reduce {
-                    states_to_pop: 0,
+            5 => {
+                __state_machine::SimulatedReduce::Reduce {
+                    states_to_pop: 1,
+                    nonterminal_produced: 3,
+                }
+            }
+            6 => {
+                __state_machine::SimulatedReduce::Reduce {
+                    states_to_pop: 2,
                     nonterminal_produced: 4,
                 }
             }
-            5 => {
-                ___state_machine::SimulatedReduce::Reduce {
+            7 => {
+                __state_machine::SimulatedReduce::Reduce {
                     states_to_pop: 3,
                     nonterminal_produced: 4,
                 }
             }
-            _ => panic!("invalid reduction index {___reduce_index}")
+            8 => {
+                __state_machine::SimulatedReduce::Reduce {
+                    states_to_pop: 3,
+                    nonterminal_produced: 4,
+                }
+            }
+            9 => {
+                __state_machine::SimulatedReduce::Reduce {
+                    states_to_pop: 4,
+                    nonterminal_produced: 4,
+                }
+            }
+            10 => {
+                __state_machine::SimulatedReduce::Reduce {
+                    states_to_pop: 3,
+                    nonterminal_produced: 4,
+                }
+            }
+            11 => {
+                __state_machine::SimulatedReduce::Reduce {
+                    states_to_pop: 6,
+                    nonterminal_produced: 5,
+                }
+            }
+            12 => {
+                __state_machine::SimulatedReduce::Reduce {
+                    states_to_pop: 7,
+                    nonterminal_produced: 5,
+                }
+            }
+            13 => {
+                __state_machine::SimulatedReduce::Reduce {
+                    states_to_pop: 7,
+                    nonterminal_produced: 5,
+                }
+            }
+            14 => {
+                __state_machine::SimulatedReduce::Reduce {
+                    states_to_pop: 8,
+                    nonterminal_produced: 5,
+                }
+            }
+            15 => {
+                __state_machine::SimulatedReduce::Reduce {
+                    states_to_pop: 7,
+                    nonterminal_produced: 5,
+                }
+            }
+            16 => {
+                __state_machine::SimulatedReduce::Reduce {
+                    states_to_pop: 7,
+                    nonterminal_produced: 5,
+                }
+            }
+            17 => {
+                __state_machine::SimulatedReduce::Reduce {
+                    states_to_pop: 8,
+                    nonterminal_produced: 5,
+                }
+            }
+            18 => {
+                __state_machine::SimulatedReduce::Reduce {
+                    states_to_pop: 8,
+                    nonterminal_produced: 5,
+                }
+            }
+            19 => {
+                __state_machine::SimulatedReduce::Reduce {
+                    states_to_pop: 9,
+                    nonterminal_produced: 5,
+                }
+            }
+            20 => {
+                __state_machine::SimulatedReduce::Reduce {
+                    states_to_pop: 8,
+                    nonterminal_produced: 5,
+                }
+            }
+            21 => {
+                __state_machine::SimulatedReduce::Reduce {
+                    states_to_pop: 7,
+                    nonterminal_produced: 5,
+                }
+            }
+            22 => {
+                __state_machine::SimulatedReduce::Reduce {
+                    states_to_pop: 8,
+                    nonterminal_produced: 5,
+                }
+            }
+            23 => {
+                __state_machine::SimulatedReduce::Reduce {
+                    states_to_pop: 8,
+                    nonterminal_produced: 5,
+                }
+            }
+            24 => {
+                __state_machine::SimulatedReduce::Reduce {
+                    states_to_pop: 9,
+                    nonterminal_produced: 5,
+                }
+            }
+            25 => {
+                __state_machine::SimulatedReduce::Reduce {
+                    states_to_pop: 8,
+                    nonterminal_produced: 5,
+                }
+            }
+            26 => {
+                __state_machine::SimulatedReduce::Reduce {
+                    states_to_pop: 8,
+                    nonterminal_produced: 5,
+                }
+            }
+            27 => {
+                __state_machine::SimulatedReduce::Reduce {
+                    states_to_pop: 9,
+                    nonterminal_produced: 5,
+                }
+            }
+            28 => {
+                __state_machine::SimulatedReduce::Reduce {
+                    states_to_pop: 9,
+                    nonterminal_produced: 5,
+                }
+            }
+            29 => {
+                __state_machine::SimulatedReduce::Reduce {
+                    states_to_pop: 10,
+                    nonterminal_produced: 5,
+                }
+            }
+            30 => {
+                __state_machine::SimulatedReduce::Reduce {
+                    states_to_pop: 9,
+                    nonterminal_produced: 5,
+                }
+            }
+            31 => {
+                __state_machine::SimulatedReduce::Reduce {
+                    states_to_pop: 7,
+                    nonterminal_produced: 5,
+                }
+            }
+            32 => {
+                __state_machine::SimulatedReduce::Reduce {
+                    states_to_pop: 8,
+                    nonterminal_produced: 5,
+                }
+            }
+            33 => {
+                __state_machine::SimulatedReduce::Reduce {
+                    states_to_pop: 8,
+                    nonterminal_produced: 5,
+                }
+            }
+            34 => {
+                __state_machine::SimulatedReduce::Reduce {
+                    states_to_pop: 9,
+                    nonterminal_produced: 5,
+                }
+            }
+            35 => {
+                __state_machine::SimulatedReduce::Reduce {
+                    states_to_pop: 8,
+                    nonterminal_produced: 5,
+                }
+            }
+            36 => {
+                __state_machine::SimulatedReduce::Reduce {
+                    states_to_pop: 2,
+                    nonterminal_produced: 5,
+                }
+            }
+            37 => {
+                __state_machine::SimulatedReduce::Reduce {
+                    states_to_pop: 3,
+                    nonterminal_produced: 5,
+                }
+            }
+            38 => {
+                __state_machine::SimulatedReduce::Reduce {
+                    states_to_pop: 3,
+                    nonterminal_produced: 5,
+                }
+            }
+            39 => {
+                __state_machine::SimulatedReduce::Reduce {
+                    states_to_pop: 4,
+                    nonterminal_produced: 5,
+                }
+            }
+            40 => {
+                __state_machine::SimulatedReduce::Reduce {
+                    states_to_pop: 3,
+                    nonterminal_produced: 5,
+                }
+            }
+            41 => __state_machine::SimulatedReduce::Accept,
+            _ => panic!("invalid reduction index {__reduce_index}")
         }
     }
-    pub struct ____xParser {
+    pub struct EParser {
         _priv: (),
     }
 
-    impl Default for ____xParser { fn default() -> Self { Self::new() } }
-    impl ____xParser {
-        pub fn new() -> ____xParser {
-            ____xParser {
+    impl Default for EParser { fn default() -> Self { Self::new() } }
+    impl EParser {
+        pub fn new() -> EParser {
+            EParser {
                 _priv: (),
             }
         }
 
         #[allow(dead_code)]
         pub fn parse<
-            ___TOKEN: ___ToTriple<>,
-            ___TOKENS: IntoIterator<Item=___TOKEN>,
+            __TOKEN: __ToTriple<>,
+            __TOKENS: IntoIterator<Item=__TOKEN>,
         >(
             &self,
-            ___tokens0: ___TOKENS,
-        ) -> Result<Tree, ___lalrpop_util::ParseError<i64, Tok, u64>>
+            __tokens0: __TOKENS,
+        ) -> Result<Tree, __lalrpop_util::ParseError<i64, Tok, u64>>
         {
-            let ___tokens = ___tokens0.into_iter();
-            let mut ___tokens = ___tokens.map(|t| ___ToTriple::to_triple(t));
-            ___state_machine::Parser::drive(
-                ___StateMachine {
-                    ___phantom: core::marker::PhantomData::<()>,
+            let __tokens = __tokens0.into_iter();
+            let mut __tokens = __tokens.map(|t| __ToTriple::to_triple(t));
+            __state_machine::Parser::drive(
+                __StateMachine {
+                    __phantom: core::marker::PhantomData::<()>,
                 },
-                ___tokens,
+                __tokens,
             )
         }
     }
-    fn ___accepts<
+    fn __accepts<
     >(
-        ___error_state: Option<i8>,
-        ___states: &[i8],
-        ___opt_integer: Option<usize>,
+        __error_state: Option<i8>,
+        __states: &[i8],
+        __opt_integer: Option<usize>,
         _: core::marker::PhantomData<()>,
     ) -> bool
     {
-        let mut ___states = ___states.to_vec();
-        ___states.extend(___error_state);
+        let mut __states = __states.to_vec();
+        __states.extend(__error_state);
         loop {
-            let mut ___states_len = ___states.len();
-            let ___top = ___states[___states_len - 1];
-            let ___action = match ___opt_integer {
-                None => ___EOF_ACTION[___top as usize],
-                Some(___integer) => ___action(___top, ___integer),
+            let mut __states_len = __states.len();
+            let __top = __states[__states_len - 1];
+            let __action = match __opt_integer {
+                None => __EOF_ACTION[__top as usize],
+                Some(__integer) => __action(__top, __integer),
             };
-            if ___action == 0 { return false; }
-            if ___action > 0 { return true; }
-            let (___to_pop, ___nt) = match ___simulate_reduce(-(___action + 1), core::marker::PhantomData::<()>) {
-                ___state_machine::SimulatedReduce::Reduce {
+            if __action == 0 { return false; }
+            if __action > 0 { return true; }
+            let (__to_pop, __nt) = match __simulate_reduce(-(__action + 1), core::marker::PhantomData::<()>) {
+                __state_machine::SimulatedReduce::Reduce {
                     states_to_pop, nonterminal_produced
                 } => (states_to_pop, nonterminal_produced),
-                ___state_machine::SimulatedReduce::Accept => return true,
+                __state_machine::SimulatedReduce::Accept => return true,
             };
-            ___states_len -= ___to_pop;
-            ___states.truncate(___states_len);
-            let ___top = ___states[___states_len - 1];
-            let ___next_state = ___goto(___top, ___nt);
-            ___states.push(___next_state);
+            __states_len -= __to_pop;
+            __states.truncate(__states_len);
+            let __top = __states[__states_len - 1];
+            let __next_state = __goto(__top, __nt);
+            __states.push(__next_state);
         }
     }
-    fn ___reduce<
+    fn __reduce<
     >(
-        ___action: i8,
-        ___lookahead_start: Option<&i64>,
-        ___states: &mut alloc::vec::Vec<i8>,
-        ___symbols: &mut alloc::vec::Vec<(i64,___Symbol<>,i64)>,
+        __action: i8,
+        __lookahead_start: Option<&i64>,
+        __states: &mut alloc::vec::Vec<i8>,
+        __symbols: &mut alloc::vec::Vec<(i64,__Symbol<>,i64)>,
         _: core::marker::PhantomData<()>,
-    ) -> Option<Result<Tree,___lalrpop_util::ParseError<i64, Tok, u64>>>
+    ) -> Option<Result<Tree,__lalrpop_util::ParseError<i64, Tok, u64>>>
     {
-        let (___pop_states, ___nonterminal) = match ___action {
+        let (__pop_states, __nonterminal) = match __action {
             0 => {
-                ___reduce0(___lookahead_start, ___symbols, core::marker::PhantomData::<()>)
+                __reduce0(__lookahead_start, __symbols, core::marker::PhantomData::<()>)
             }
             1 => {
-                ___reduce1(___lookahead_start, ___symbols, core::marker::PhantomData::<()>)
+                __reduce1(__lookahead_start, __symbols, core::marker::PhantomData::<()>)
             }
             2 => {
-                // _______x = ____x => ActionFn(0);
-                let ___sym0 = ___pop_Variant2(___symbols);
-                let ___start = ___sym0.0.clone();
-                let ___end = ___sym0.2.clone();
-                let ___nt = super::___action0::<>(___sym0);
-                return Some(Ok(___nt));
+                __reduce2(__lookahead_start, __symbols, core::marker::PhantomData::<()>)
             }
             3 => {
-                ___reduce3(___lookahead_start, ___symbols, core::marker::PhantomData::<()>)
+                __reduce3(__lookahead_start, __symbols, core::marker::PhantomData::<()>)
             }
             4 => {
-                ___reduce4(___lookahead_start, ___symbols, core::marker::PhantomData::<()>)
+                __reduce4(__lookahead_start, __symbols, core::marker::PhantomData::<()>)
             }
             5 => {
-                ___reduce5(___lookahead_start, ___symbols, core::marker::PhantomData::<()>)
+                __reduce5(__lookahead_start, __symbols, core::marker::PhantomData::<()>)
             }
-            _ => panic!("invalid action code {___action}")
+            6 => {
+                __reduce6(__lookahead_start, __symbols, core::marker::PhantomData::<()>)
+            }
+            7 => {
+                __reduce7(__lookahead_start, __symbols, core::marker::PhantomData::<()>)
+            }
+            8 => {
+                __reduce8(__lookahead_start, __symbols, core::marker::PhantomData::<()>)
+            }
+            9 => {
+                __reduce9(__lookahead_start, __symbols, core::marker::PhantomData::<()>)
+            }
+            10 => {
+                __reduce10(__lookahead_start, __symbols, core::marker::PhantomData::<()>)
+            }
+            11 => {
+                __reduce11(__lookahead_start, __symbols, core::marker::PhantomData::<()>)
+            }
+            12 => {
+                __reduce12(__lookahead_start, __symbols, core::marker::PhantomData::<()>)
+            }
+            13 => {
+                __reduce13(__lookahead_start, __symbols, core::marker::PhantomData::<()>)
+            }
+            14 => {
+                __reduce14(__lookahead_start, __symbols, core::marker::PhantomData::<()>)
+            }
+            15 => {
+                __reduce15(__lookahead_start, __symbols, core::marker::PhantomData::<()>)
+            }
+            16 => {
+                __reduce16(__lookahead_start, __symbols, core::marker::PhantomData::<()>)
+            }
+            17 => {
+                __reduce17(__lookahead_start, __symbols, core::marker::PhantomData::<()>)
+            }
+            18 => {
+                __reduce18(__lookahead_start, __symbols, core::marker::PhantomData::<()>)
+            }
+            19 => {
+                __reduce19(__lookahead_start, __symbols, core::marker::PhantomData::<()>)
+            }
+            20 => {
+                __reduce20(__lookahead_start, __symbols, core::marker::PhantomData::<()>)
+            }
+            21 => {
+                __reduce21(__lookahead_start, __symbols, core::marker::PhantomData::<()>)
+            }
+            22 => {
+                __reduce22(__lookahead_start, __symbols, core::marker::PhantomData::<()>)
+            }
+            23 => {
+                __reduce23(__lookahead_start, __symbols, core::marker::PhantomData::<()>)
+            }
+            24 => {
+                __reduce24(__lookahead_start, __symbols, core::marker::PhantomData::<()>)
+            }
+            25 => {
+                __reduce25(__lookahead_start, __symbols, core::marker::PhantomData::<()>)
+            }
+            26 => {
+                __reduce26(__lookahead_start, __symbols, core::marker::PhantomData::<()>)
+            }
+            27 => {
+                __reduce27(__lookahead_start, __symbols, core::marker::PhantomData::<()>)
+            }
+            28 => {
+                __reduce28(__lookahead_start, __symbols, core::marker::PhantomData::<()>)
+            }
+            29 => {
+                __reduce29(__lookahead_start, __symbols, core::marker::PhantomData::<()>)
+            }
+            30 => {
+                __reduce30(__lookahead_start, __symbols, core::marker::PhantomData::<()>)
+            }
+            31 => {
+                __reduce31(__lookahead_start, __symbols, core::marker::PhantomData::<()>)
+            }
+            32 => {
+                __reduce32(__lookahead_start, __symbols, core::marker::PhantomData::<()>)
+            }
+            33 => {
+                __reduce33(__lookahead_start, __symbols, core::marker::PhantomData::<()>)
+            }
+            34 => {
+                __reduce34(__lookahead_start, __symbols, core::marker::PhantomData::<()>)
+            }
+            35 => {
+                __reduce35(__lookahead_start, __symbols, core::marker::PhantomData::<()>)
+            }
+            36 => {
+                __reduce36(__lookahead_start, __symbols, core::marker::PhantomData::<()>)
+            }
+            37 => {
+                __reduce37(__lookahead_start, __symbols, core::marker::PhantomData::<()>)
+            }
+            38 => {
+                __reduce38(__lookahead_start, __symbols, core::marker::PhantomData::<()>)
+            }
+            39 => {
+                __reduce39(__lookahead_start, __symbols, core::marker::PhantomData::<()>)
+            }
+            40 => {
+                __reduce40(__lookahead_start, __symbols, core::marker::PhantomData::<()>)
+            }
+            41 => {
+                // __E = E => ActionFn(0);
+                let __sym0 = __pop_Variant2(__symbols);
+                let __start = __sym0.0.clone();
+                let __end = __sym0.2.clone();
+                let __nt = super::__action0::<>(__sym0);
+                return Some(Ok(__nt));
+            }
+            _ => panic!("invalid action code {__action}")
         };
-        let ___states_len = ___states.len();
-        ___states.truncate(___states_len - ___pop_states);
-        let ___state = *___states.last().unwrap();
-        let ___next_state = ___goto(___state, ___nonterminal);
-        ___states.push(___next_state);
+        let __states_len = __states.len();
+        __states.truncate(__states_len - __pop_states);
+        let __state = *__states.last().unwrap();
+        let __next_state = __goto(__state, __nonterminal);
+        __states.push(__next_state);
         None
     }
     #[inline(never)]
-    fn ___symbol_type_mismatch() -> ! {
+    fn __symbol_type_mismatch() -> ! {
         panic!("symbol type mismatch")
     }
-    fn ___pop_Variant0<
+    fn __pop_Variant0<
     >(
-        ___symbols: &mut alloc::vec::Vec<(i64,___Symbol<>,i64)>
+        __symbols: &mut alloc::vec::Vec<(i64,__Symbol<>,i64)>
     ) -> (i64, Tok, i64)
      {
-        match ___symbols.pop() {
-            Some((___l, ___Symbol::Variant0(___v), ___r)) => (___l, ___v, ___r),
-            _ => ___symbol_type_mismatch()
+        match __symbols.pop() {
+            Some((__l, __Symbol::Variant0(__v), __r)) => (__l, __v, __r),
+            _ => __symbol_type_mismatch()
         }
     }
-    fn ___pop_Variant2<
+    fn __pop_Variant2<
     >(
-        ___symbols: &mut alloc::vec::Vec<(i64,___Symbol<>,i64)>
+        __symbols: &mut alloc::vec::Vec<(i64,__Symbol<>,i64)>
     ) -> (i64, Tree, i64)
      {
-        match ___symbols.pop() {
-            Some((___l, ___Symbol::Variant2(___v), ___r)) => (___l, ___v, ___r),
-            _ => ___symbol_type_mismatch()
+        match __symbols.pop() {
+            Some((__l, __Symbol::Variant2(__v), __r)) => (__l, __v, __r),
+            _ => __symbol_type_mismatch()
         }
     }
-    fn ___pop_Variant1<
+    fn __pop_Variant1<
     >(
-        ___symbols: &mut alloc::vec::Vec<(i64,___Symbol<>,i64)>
+        __symbols: &mut alloc::vec::Vec<(i64,__Symbol<>,i64)>
     ) -> (i64, i64, i64)
      {
-        match ___symbols.pop() {
-            Some((___l, ___Symbol::Variant1(___v), ___r)) => (___l, ___v, ___r),
-            _ => ___symbol_type_mismatch()
+        match __symbols.pop() {
+            Some((__l, __Symbol::Variant1(__v), __r)) => (__l, __v, __r),
+            _ => __symbol_type_mismatch()
         }
     }
-    fn ___reduce0<
+    fn __reduce0<
     >(
-        ___lookahead_start: Option<&i64>,
-        ___symbols: &mut alloc::vec::Vec<(i64,___Symbol<>,i64)>,
+        __lookahead_start: Option<&i64>,
+        __symbols: &mut alloc::vec::Vec<(i64,__Symbol<>,i64)>,
         _: core::marker::PhantomData<()>,
     ) -> (usize, usize)
     {
-        // @L =  => ActionFn(5);
-        let ___start = ___lookahead_start.cloned().or_else(|| ___symbols.last().map(|s| s.2.clone())).unwrap_or_default();
-        let ___end = ___start.clone();
-        let ___nt = super::___action5::<>(&___start, &___end);
-        ___symbols.push((___start, ___Symbol::Variant1(___nt), ___end));
+        // @L =  => ActionFn(10);
+        let __start = __lookahead_start.cloned().or_else(|| __symbols.last().map(|s| s.2.clone())).unwrap_or_default();
+        let __end = __start.clone();
+        let __nt = super::__action10::<>(&__start, &__end);
+        __symbols.push((__start, __Symbol::Variant1(__nt), __end));
         (0, 0)
     }
-    fn ___reduce1<
+    fn __reduce1<
     >(
-        ___lookahead_start: Option<&i64>,
-        ___symbols: &mut alloc::vec::Vec<(i64,___Symbol<>,i64)>,
+        __lookahead_start: Option<&i64>,
+        __symbols: &mut alloc::vec::Vec<(i64,__Symbol<>,i64)>,
         _: core::marker::PhantomData<()>,
     ) -> (usize, usize)
     {
-        // @R =  => ActionFn(4);
-        let ___start = ___lookahead_start.cloned().or_else(|| ___symbols.last().map(|s| s.2.clone())).unwrap_or_default();
-        let ___end = ___start.clone();
-        let ___nt = super::___action4::<>(&___start, &___end);
-        ___symbols.push((___start, ___Symbol::Variant1(___nt), ___end));
+        // @R =  => ActionFn(9);
+        let __start = __lookahead_start.cloned().or_else(|| __symbols.last().map(|s| s.2.clone())).unwrap_or_default();
+        let __end = __start.clone();
+        let __nt = super::__action9::<>(&__start, &__end);
+        __symbols.push((__start, __Symbol::Variant1(__nt), __end));
         (0, 1)
     }
-    fn ___reduce3<
+    fn __reduce2<
     >(
-        ___lookahead_start: Option<&i64>,
-        ___symbols: &mut alloc::vec::Vec<(i64,___Symbol<>,i64)>,
+        __lookahead_start: Option<&i64>,
+        __symbols: &mut alloc::vec::Vec<(i64,__Symbol<>,i64)>,
         _: core::marker::PhantomData<()>,
     ) -> (usize, usize)
     {
-        // ____x = "let", "id", ____x1 => ActionFn(9);
-        assert!(___symbols.len() >= 3);
-        let ___sym2 = ___pop_Variant2(___symbols);
-        let ___sym1 = ___pop_Variant0(___symbols);
-        let ___sym0 = ___pop_Variant0(___symbols);
-        let ___start = ___sym0.0.clone();
-        let ___end = ___sym2.2.clone();
-        let ___nt = super::___action9::<>(___sym0, ___sym1, ___sym2);
-        ___symbols.push((___start, ___Symbol::Variant2(___nt), ___end));
+        // A = "x" => ActionFn(19);
+        let __sym0 = __pop_Variant0(__symbols);
+        let __start = __sym0.0.clone();
+        let __end = __sym0.2.clone();
+        let __nt = super::__action19::<>(__sym0);
+        __symbols.push((__start, __Symbol::Variant2(__nt), __end));
+        (1, 2)
+    }
+    fn __reduce3<
+    >(
+        __lookahead_start: Option<&i64>,
+        __symbols: &mut alloc::vec::Vec<(i64,__Symbol<>,i64)>,
+        _: core::marker::PhantomData<()>,
+    ) -> (usize, usize)
+    {
+        // A = "x", "q" => ActionFn(20);
+        assert!(__symbols.len() >= 2);
+        let __sym1 = __pop_Variant0(__symbols);
+        let __sym0 = __pop_Variant0(__symbols);
+        let __start = __sym0.0.clone();
+        let __end = __sym1.2.clone();
+        let __nt = super::__action20::<>(__sym0, __sym1);
+        __symbols.push((__start, __Symbol::Variant2(__nt), __end));
+        (2, 2)
+    }
+    fn __reduce4<
+    >(
+        __lookahead_start: Option<&i64>,
+        __symbols: &mut alloc::vec::Vec<(i64,__Symbol<>,i64)>,
+        _: core::marker::PhantomData<()>,
+    ) -> (usize, usize)
+    {
+        // E = E, "+", T => ActionFn(21);
+        assert!(__symbols.len() >= 3);
+        let __sym2 = __pop_Variant2(__symbols);
+        let __sym1 = __pop_Variant0(__symbols);
+        let __sym0 = __pop_Variant2(__symbols);
+        let __start = __sym0.0.clone();
+        let __end = __sym2.2.clone();
+        let __nt = super::__action21::<>(__sym0, __sym1, __sym2);
+        __symbols.push((__start, __Symbol::Variant2(__nt), __end));
         (3, 3)
     }
-    fn ___reduce4<
+    fn __reduce5<
     >(
-        ___lookahead_start: Option<&i64>,
-        ___symbols: &mut alloc::vec::Vec<(i64,___Symbol<>,i64)>,
+        __lookahead_start: Option<&i64>,
+        __symbols: &mut alloc::vec::Vec<(i64,__Symbol<>,i64)>,
         _: core::marker::PhantomData<()>,
     ) -> (usize, usize)
     {
-        // ____x1 =  => ActionFn(10);
-        let ___start = ___lookahead_start.cloned().or_else(|| ___symbols.last().map(|s| s.2.clone())).unwrap_or_default();
-        let ___end = ___start.clone();
-        let ___nt = super::___action10::<>(&___start, &___end);
-        ___symbols.push((___start, ___Symbol::Variant2(___nt), ___end));
-        (0, 4)
+        // E = T => ActionFn(22);
+        let __sym0 = __pop_Variant2(__symbols);
+        let __start = __sym0.0.clone();
+        let __end = __sym0.2.clone();
+        let __nt = super::__action22::<>(__sym0);
+        __symbols.push((__start, __Symbol::Variant2(__nt), __end));
+        (1, 3)
     }
-    fn ___reduce5<
+    fn __reduce6<
     >(
-        ___lookahead_start: Option<&i64>,
-        ___symbols: &mut alloc::vec::Vec<(i64,___Symbol<>,i64)>,
+        __lookahead_start: Option<&i64>,
+        __symbols: &mut alloc::vec::Vec<(i64,__Symbol<>,i64)>,
         _: core::marker::PhantomData<()>,
     ) -> (usize, usize)
     {
-        // ____x1 = ____x1, "+", "id" => ActionFn(11);
-        assert!(___symbols.len() >= 3);
-        let ___sym2 = ___pop_Variant0(___symbols);
-        let ___sym1 = ___pop_Variant0(___symbols);
-        let ___sym0 = ___pop_Variant2(___symbols);
-        let ___start = ___sym0.0.clone();
-        let ___end = ___sym2.2.clone();
-        let ___nt = super::___action11::<>(___sym0, ___sym1, ___sym2);
-        ___symbols.push((___start, ___Symbol::Variant2(___nt), ___end));
+        // F = "x", "x" => ActionFn(27);
+        assert!(__symbols.len() >= 2);
+        let __sym1 = __pop_Variant0(__symbols);
+        let __sym0 = __pop_Variant0(__symbols);
+        let __start = __sym0.0.clone();
+        let __end = __sym1.2.clone();
+        let __nt = super::__action27::<>(__sym0, __sym1);
+        __symbols.push((__start, __Symbol::Variant2(__nt), __end));
+        (2, 4)
+    }
+    fn __reduce7<
+    >(
+        __lookahead_start: Option<&i64>,
+        __symbols: &mut alloc::vec::Vec<(i64,__Symbol<>,i64)>,
+        _: core::marker::PhantomData<()>,
+    ) -> (usize, usize)
+    {
+        // F = "x", "x", "q" => ActionFn(28);
+        assert!(__symbols.len() >= 3);
+        let __sym2 = __pop_Variant0(__symbols);
+        let __sym1 = __pop_Variant0(__symbols);
+        let __sym0 = __pop_Variant0(__symbols);
+        let __start = __sym0.0.clone();
+        let __end = __sym2.2.clone();
+        let __nt = super::__action28::<>(__sym0, __sym1, __sym2);
+        __symbols.push((__start, __Symbol::Variant2(__nt), __end));
         (3, 4)
+    }
+    fn __reduce8<
+    >(
+        __lookahead_start: Option<&i64>,
+        __symbols: &mut alloc::vec::Vec<(i64,__Symbol<>,i64)>,
+        _: core::marker::PhantomData<()>,
+    ) -> (usize, usize)
+    {
+        // F = "x", "q", "x" => ActionFn(29);
+        assert!(__symbols.len() >= 3);
+        let __sym2 = __pop_Variant0(__symbols);
+        let __sym1 = __pop_Variant0(__symbols);
+        let __sym0 = __pop_Variant0(__symbols);
+        let __start = __sym0.0.clone();
+        let __end = __sym2.2.clone();
+        let __nt = super::__action29::<>(__sym0, __sym1, __sym2);
+        __symbols.push((__start, __Symbol::Variant2(__nt), __end));
+        (3, 4)
+    }
+    fn __reduce9<
+    >(
+        __lookahead_start: Option<&i64>,
+        __symbols: &mut alloc::vec::Vec<(i64,__Symbol<>,i64)>,
+        _: core::marker::PhantomData<()>,
+    ) -> (usize, usize)
+    {
+        // F = "x", "q", "x", "q" => ActionFn(30);
+        assert!(__symbols.len() >= 4);
+        let __sym3 = __pop_Variant0(__symbols);
+        let __sym2 = __pop_Variant0(__symbols);
+        let __sym1 = __pop_Variant0(__symbols);
+        let __sym0 = __pop_Variant0(__symbols);
+        let __start = __sym0.0.clone();
+        let __end = __sym3.2.clone();
+        let __nt = super::__action30::<>(__sym0, __sym1, __sym2, __sym3);
+        __symbols.push((__start, __Symbol::Variant2(__nt), __end));
+        (4, 4)
+    }
+    fn __reduce10<
+    >(
+        __lookahead_start: Option<&i64>,
+        __symbols: &mut alloc::vec::Vec<(i64,__Symbol<>,i64)>,
+        _: core::marker::PhantomData<()>,
+    ) -> (usize, usize)
+    {
+        // F = "(", E, ")" => ActionFn(24);
+        assert!(__symbols.len() >= 3);
+        let __sym2 = __pop_Variant0(__symbols);
+        let __sym1 = __pop_Variant2(__symbols);
+        let __sym0 = __pop_Variant0(__symbols);
+        let __start = __sym0.0.clone();
+        let __end = __sym2.2.clone();
+        let __nt = super::__action24::<>(__sym0, __sym1, __sym2);
+        __symbols.push((__start, __Symbol::Variant2(__nt), __end));
+        (3, 4)
+    }
+    fn __reduce11<
+    >(
+        __lookahead_start: Option<&i64>,
+        __symbols: &mut alloc::vec::Vec<(i64,__Symbol<>,i64)>,
+        _: core::marker::PhantomData<()>,
+    ) -> (usize, usize)
+    {
+        // T = T, "*", "x", "x", "x", "x" => ActionFn(31);
+        assert!(__symbols.len() >= 6);
+        let __sym5 = __pop_Variant0(__symbols);
+        let __sym4 = __pop_Variant0(__symbols);
+        let __sym3 = __pop_Variant0(__symbols);
+        let __sym2 = __pop_Variant0(__symbols);
+        let __sym1 = __pop_Variant0(__symbols);
+        let __sym0 = __pop_Variant2(__symbols);
+        let __start = __sym0.0.clone();
+        let __end = __sym5.2.clone();
+        let __nt = super::__action31::<>(__sym0, __sym1, __sym2, __sym3, __sym4, __sym5);
+        __symbols.push((__start, __Symbol::Variant2(__nt), __end));
+        (6, 5)
+    }
+    fn __reduce12<
+    >(
+        __lookahead_start: Option<&i64>,
+        __symbols: &mut alloc::vec::Vec<(i64,__Symbol<>,i64)>,
+        _: core::marker::PhantomData<()>,
+    ) -> (usize, usize)
+    {
+        // T = T, "*", "x", "x", "x", "x", "q" => ActionFn(32);
+        assert!(__symbols.len() >= 7);
+        let __sym6 = __pop_Variant0(__symbols);
+        let __sym5 = __pop_Variant0(__symbols);
+        let __sym4 = __pop_Variant0(__symbols);
+        let __sym3 = __pop_Variant0(__symbols);
+        let __sym2 = __pop_Variant0(__symbols);
+        let __sym1 = __pop_Variant0(__symbols);
+        let __sym0 = __pop_Variant2(__symbols);
+        let __start = __sym0.0.clone();
+        let __end = __sym6.2.clone();
+        let __nt = super::__action32::<>(__sym0, __sym1, __sym2, __sym3, __sym4, __sym5, __sym6);
+        __symbols.push((__start, __Symbol::Variant2(__nt), __end));
+        (7, 5)
+    }
+    fn __reduce13<
+    >(
+        __lookahead_start: Option<&i64>,
+        __symbols: &mut alloc::vec::Vec<(i64,__Symbol<>,i64)>,
+        _: core::marker::PhantomData<()>,
+    ) -> (usize, usize)
+    {
+        // T = T, "*", "x", "x", "x", "q", "x" => ActionFn(33);
+        assert!(__symbols.len() >= 7);
+        let __sym6 = __pop_Variant0(__symbols);
+        let __sym5 = __pop_Variant0(__symbols);
+        let __sym4 = __pop_Variant0(__symbols);
+        let __sym3 = __pop_Variant0(__symbols);
+        let __sym2 = __pop_Variant0(__symbols);
+        let __sym1 = __pop_Variant0(__symbols);
+        let __sym0 = __pop_Variant2(__symbols);
+        let __start = __sym0.0.clone();
+        let __end = __sym6.2.clone();
+        let __nt = super::__action33::<>(__sym0, __sym1, __sym2, __sym3, __sym4, __sym5, __sym6);
+        __symbols.push((__start, __Symbol::Variant2(__nt), __end));
+        (7, 5)
+    }
+    fn __reduce14<
+    >(
+        __lookahead_start: Option<&i64>,
+        __symbols: &mut alloc::vec::Vec<(i64,__Symbol<>,i64)>,
+        _: core::marker::PhantomData<()>,
+    ) -> (usize, usize)
+    {
+        // T = T, "*", "x", "x", "x", "q", "x", "q" => ActionFn(34);
+        assert!(__symbols.len() >= 8);
+        let __sym7 = __pop_Variant0(__symbols);
+        let __sym6 = __pop_Variant0(__symbols);
+        let __sym5 = __pop_Variant0(__symbols);
+        let __sym4 = __pop_Variant0(__symbols);
+        let __sym3 = __pop_Variant0(__symbols);
+        let __sym2 = __pop_Variant0(__symbols);
+        let __sym1 = __pop_Variant0(__symbols);
+        let __sym0 = __pop_Variant2(__symbols);
+        let __start = __sym0.0.clone();
+        let __end = __sym7.2.clone();
+        let __nt = super::__action34::<>(__sym0, __sym1, __sym2, __sym3, __sym4, __sym5, __sym6, __sym7);
+        __symbols.push((__start, __Symbol::Variant2(__nt), __end));
+        (8, 5)
+    }
+    fn __reduce15<
+    >(
+        __lookahead_start: Option<&i64>,
+        __symbols: &mut alloc::vec::Vec<(i64,__Symbol<>,i64)>,
+        _: core::marker::PhantomData<()>,
+    ) -> (usize, usize)
+    {
+        // T = T, "*", "x", "x", "(", E, ")" => ActionFn(35);
+        assert!(__symbols.len() >= 7);
+        let __sym6 = __pop_Variant0(__symbols);
+        let __sym5 = __pop_Variant2(__symbols);
+        let __sym4 = __pop_Variant0(__symbols);
+        let __sym3 = __pop_Variant0(__symbols);
+        let __sym2 = __pop_Variant0(__symbols);
+        let __sym1 = __pop_Variant0(__symbols);
+        let __sym0 = __pop_Variant2(__symbols);
+        let __start = __sym0.0.clone();
+        let __end = __sym6.2.clone();
+        let __nt = super::__action35::<>(__sym0, __sym1, __sym2, __sym3, __sym4, __sym5, __sym6);
+        __symbols.push((__start, __Symbol::Variant2(__nt), __end));
+        (7, 5)
+    }
+    fn __reduce16<
+    >(
+        __lookahead_start: Option<&i64>,
+        __symbols: &mut alloc::vec::Vec<(i64,__Symbol<>,i64)>,
+        _: core::marker::PhantomData<()>,
+    ) -> (usize, usize)
+    {
+        // T = T, "*", "x", "x", "q", "x", "x" => ActionFn(36);
+        assert!(__symbols.len() >= 7);
+        let __sym6 = __pop_Variant0(__symbols);
+        let __sym5 = __pop_Variant0(__symbols);
+        let __sym4 = __pop_Variant0(__symbols);
+        let __sym3 = __pop_Variant0(__symbols);
+        let __sym2 = __pop_Variant0(__symbols);
+        let __sym1 = __pop_Variant0(__symbols);
+        let __sym0 = __pop_Variant2(__symbols);
+        let __start = __sym0.0.clone();
+        let __end = __sym6.2.clone();
+        let __nt = super::__action36::<>(__sym0, __sym1, __sym2, __sym3, __sym4, __sym5, __sym6);
+        __symbols.push((__start, __Symbol::Variant2(__nt), __end));
+        (7, 5)
+    }
+    fn __reduce17<
+    >(
+        __lookahead_start: Option<&i64>,
+        __symbols: &mut alloc::vec::Vec<(i64,__Symbol<>,i64)>,
+        _: core::marker::PhantomData<()>,
+    ) -> (usize, usize)
+    {
+        // T = T, "*", "x", "x", "q", "x", "x", "q" => ActionFn(37);
+        assert!(__symbols.len() >= 8);
+        let __sym7 = __pop_Variant0(__symbols);
+        let __sym6 = __pop_Variant0(__symbols);
+        let __sym5 = __pop_Variant0(__symbols);
+        let __sym4 = __pop_Variant0(__symbols);
+        let __sym3 = __pop_Variant0(__symbols);
+        let __sym2 = __pop_Variant0(__symbols);
+        let __sym1 = __pop_Variant0(__symbols);
+        let __sym0 = __pop_Variant2(__symbols);
+        let __start = __sym0.0.clone();
+        let __end = __sym7.2.clone();
+        let __nt = super::__action37::<>(__sym0, __sym1, __sym2, __sym3, __sym4, __sym5, __sym6, __sym7);
+        __symbols.push((__start, __Symbol::Variant2(__nt), __end));
+        (8, 5)
+    }
+    fn __reduce18<
+    >(
+        __lookahead_start: Option<&i64>,
+        __symbols: &mut alloc::vec::Vec<(i64,__Symbol<>,i64)>,
+        _: core::marker::PhantomData<()>,
+    ) -> (usize, usize)
+    {
+        // T = T, "*", "x", "x", "q", "x", "q", "x" => ActionFn(38);
+        assert!(__symbols.len() >= 8);
+        let __sym7 = __pop_Variant0(__symbols);
+        let __sym6 = __pop_Variant0(__symbols);
+        let __sym5 = __pop_Variant0(__symbols);
+        let __sym4 = __pop_Variant0(__symbols);
+        let __sym3 = __pop_Variant0(__symbols);
+        let __sym2 = __pop_Variant0(__symbols);
+        let __sym1 = __pop_Variant0(__symbols);
+        let __sym0 = __pop_Variant2(__symbols);
+        let __start = __sym0.0.clone();
+        let __end = __sym7.2.clone();
+        let __nt = super::__action38::<>(__sym0, __sym1, __sym2, __sym3, __sym4, __sym5, __sym6, __sym7);
+        __symbols.push((__start, __Symbol::Variant2(__nt), __end));
+        (8, 5)
+    }
+    fn __reduce19<
+    >(
+        __lookahead_start: Option<&i64>,
+        __symbols: &mut alloc::vec::Vec<(i64,__Symbol<>,i64)>,
+        _: core::marker::PhantomData<()>,
+    ) -> (usize, usize)
+    {
+        // T = T, "*", "x", "x", "q", "x", "q", "x", "q" => ActionFn(39);
+        assert!(__symbols.len() >= 9);
+        let __sym8 = __pop_Variant0(__symbols);
+        let __sym7 = __pop_Variant0(__symbols);
+        let __sym6 = __pop_Variant0(__symbols);
+        let __sym5 = __pop_Variant0(__symbols);
+        let __sym4 = __pop_Variant0(__symbols);
+        let __sym3 = __pop_Variant0(__symbols);
+        let __sym2 = __pop_Variant0(__symbols);
+        let __sym1 = __pop_Variant0(__symbols);
+        let __sym0 = __pop_Variant2(__symbols);
+        let __start = __sym0.0.clone();
+        let __end = __sym8.2.clone();
+        let __nt = super::__action39::<>(__sym0, __sym1, __sym2, __sym3, __sym4, __sym5, __sym6, __sym7, __sym8);
+        __symbols.push((__start, __Symbol::Variant2(__nt), __end));
+        (9, 5)
+    }
+    fn __reduce20<
+    >(
+        __lookahead_start: Option<&i64>,
+        __symbols: &mut alloc::vec::Vec<(i64,__Symbol<>,i64)>,
+        _: core::marker::PhantomData<()>,
+    ) -> (usize, usize)
+    {
+        // T = T, "*", "x", "x", "q", "(", E, ")" => ActionFn(40);
+        assert!(__symbols.len() >= 8);
+        let __sym7 = __pop_Variant0(__symbols);
+        let __sym6 = __pop_Variant2(__symbols);
+        let __sym5 = __pop_Variant0(__symbols);
+        let __sym4 = __pop_Variant0(__symbols);
+        let __sym3 = __pop_Variant0(__symbols);
+        let __sym2 = __pop_Variant0(__symbols);
+        let __sym1 = __pop_Variant0(__symbols);
+        let __sym0 = __pop_Variant2(__symbols);
+        let __start = __sym0.0.clone();
+        let __end = __sym7.2.clone();
+        let __nt = super::__action40::<>(__sym0, __sym1, __sym2, __sym3, __sym4, __sym5, __sym6, __sym7);
+        __symbols.push((__start, __Symbol::Variant2(__nt), __end));
+        (8, 5)
+    }
+    fn __reduce21<
+    >(
+        __lookahead_start: Option<&i64>,
+        __symbols: &mut alloc::vec::Vec<(i64,__Symbol<>,i64)>,
+        _: core::marker::PhantomData<()>,
+    ) -> (usize, usize)
+    {
+        // T = T, "*", "x", "q", "x", "x", "x" => ActionFn(41);
+        assert!(__symbols.len() >= 7);
+        let __sym6 = __pop_Variant0(__symbols);
+        let __sym5 = __pop_Variant0(__symbols);
+        let __sym4 = __pop_Variant0(__symbols);
+        let __sym3 = __pop_Variant0(__symbols);
+        let __sym2 = __pop_Variant0(__symbols);
+        let __sym1 = __pop_Variant0(__symbols);
+        let __sym0 = __pop_Variant2(__symbols);
+        let __start = __sym0.0.clone();
+        let __end = __sym6.2.clone();
+        let __nt = super::__action41::<>(__sym0, __sym1, __sym2, __sym3, __sym4, __sym5, __sym6);
+        __symbols.push((__start, __Symbol::Variant2(__nt), __end));
+        (7, 5)
+    }
+    fn __reduce22<
+    >(
+        __lookahead_start: Option<&i64>,
+        __symbols: &mut alloc::vec::Vec<(i64,__Symbol<>,i64)>,
+        _: core::marker::PhantomData<()>,
+    ) -> (usize, usize)
+    {
+        // T = T, "*", "x", "q", "x", "x", "x", "q" => ActionFn(42);
+        assert!(__symbols.len() >= 8);
+        let __sym7 = __pop_Variant0(__symbols);
+        let __sym6 = __pop_Variant0(__symbols);
+        let __sym5 = __pop_Variant0(__symbols);
+        let __sym4 = __pop_Variant0(__symbols);
+        let __sym3 = __pop_Variant0(__symbols);
+        let __sym2 = __pop_Variant0(__symbols);
+        let __sym1 = __pop_Variant0(__symbols);
+        let __sym0 = __pop_Variant2(__symbols);
+        let __start = __sym0.0.clone();
+        let __end = __sym7.2.clone();
+        let __nt = super::__action42::<>(__sym0, __sym1, __sym2, __sym3, __sym4, __sym5, __sym6, __sym7);
+        __symbols.push((__start, __Symbol::Variant2(__nt), __end));
+        (8, 5)
+    }
+    fn __reduce23<
+    >(
+        __lookahead_start: Option<&i64>,
+        __symbols: &mut alloc::vec::Vec<(i64,__Symbol<>,i64)>,
+        _: core::marker::PhantomData<()>,
+    ) -> (usize, usize)
+    {
+        // T = T, "*", "x", "q", "x", "x", "q", "x" => ActionFn(43);
+        assert!(__symbols.len() >= 8);
+        let __sym7 = __pop_Variant0(__symbols);
+        let __sym6 = __pop_Variant0(__symbols);
+        let __sym5 = __pop_Variant0(__symbols);
+        let __sym4 = __pop_Variant0(__symbols);
+        let __sym3 = __pop_Variant0(__symbols);
+        let __sym2 = __pop_Variant0(__symbols);
+        let __sym1 = __pop_Variant0(__symbols);
+        let __sym0 = __pop_Variant2(__symbols);
+        let __start = __sym0.0.clone();
+        let __end = __sym7.2.clone();
+        let __nt = super::__action43::<>(__sym0, __sym1, __sym2, __sym3, __sym4, __sym5, __sym6, __sym7);
+        __symbols.push((__start, __Symbol::Variant2(__nt), __end));
+        (8, 5)
+    }
+    fn __reduce24<
+    >(
+        __lookahead_start: Option<&i64>,
+        __symbols: &mut alloc::vec::Vec<(i64,__Symbol<>,i64)>,
+        _: core::marker::PhantomData<()>,
+    ) -> (usize, usize)
+    {
+        // T = T, "*", "x", "q", "x", "x", "q", "x", "q" => ActionFn(44);
+        assert!(__symbols.len() >= 9);
+        let __sym8 = __pop_Variant0(__symbols);
+        let __sym7 = __pop_Variant0(__symbols);
+        let __sym6 = __pop_Variant0(__symbols);
+        let __sym5 = __pop_Variant0(__symbols);
+        let __sym4 = __pop_Variant0(__symbols);
+        let __sym3 = __pop_Variant0(__symbols);
+        let __sym2 = __pop_Variant0(__symbols);
+        let __sym1 = __pop_Variant0(__symbols);
+        let __sym0 = __pop_Variant2(__symbols);
+        let __start = __sym0.0.clone();
+        let __end = __sym8.2.clone();
+        let __nt = super::__action44::<>(__sym0, __sym1, __sym2, __sym3, __sym4, __sym5, __sym6, __sym7, __sym8);
+        __symbols.push((__start, __Symbol::Variant2(__nt), __end));
+        (9, 5)
+    }
+    fn __reduce25<
+    >(
+        __lookahead_start: Option<&i64>,
+        __symbols: &mut alloc::vec::Vec<(i64,__Symbol<>,i64)>,
+        _: core::marker::PhantomData<()>,
+    ) -> (usize, usize)
+    {
+        // T = T, "*", "x", "q", "x", "(", E, ")" => ActionFn(45);
+        assert!(__symbols.len() >= 8);
+        let __sym7 = __pop_Variant0(__symbols);
+        let __sym6 = __pop_Variant2(__symbols);
+        let __sym5 = __pop_Variant0(__symbols);
+        let __sym4 = __pop_Variant0(__symbols);
+        let __sym3 = __pop_Variant0(__symbols);
+        let __sym2 = __pop_Variant0(__symbols);
+        let __sym1 = __pop_Variant0(__symbols);
+        let __sym0 = __pop_Variant2(__symbols);
+        let __start = __sym0.0.clone();
+        let __end = __sym7.2.clone();
+        let __nt = super::__action45::<>(__sym0, __sym1, __sym2, __sym3, __sym4, __sym5, __sym6, __sym7);
+        __symbols.push((__start, __Symbol::Variant2(__nt), __end));
+        (8, 5)
+    }
+    fn __reduce26<
+    >(
+        __lookahead_start: Option<&i64>,
+        __symbols: &mut alloc::vec::Vec<(i64,__Symbol<>,i64)>,
+        _: core::marker::PhantomData<()>,
+    ) -> (usize, usize)
+    {
+        // T = T, "*", "x", "q", "x", "q", "x", "x" => ActionFn(46);
+        assert!(__symbols.len() >= 8);
+        let __sym7 = __pop_Variant0(__symbols);
+        let __sym6 = __pop_Variant0(__symbols);
+        let __sym5 = __pop_Variant0(__symbols);
+        let __sym4 = __pop_Variant0(__symbols);
+        let __sym3 = __pop_Variant0(__symbols);
+        let __sym2 = __pop_Variant0(__symbols);
+        let __sym1 = __pop_Variant0(__symbols);
+        let __sym0 = __pop_Variant2(__symbols);
+        let __start = __sym0.0.clone();
+        let __end = __sym7.2.clone();
+        let __nt = super::__action46::<>(__sym0, __sym1, __sym2, __sym3, __sym4, __sym5, __sym6, __sym7);
+        __symbols.push((__start, __Symbol::Variant2(__nt), __end));
+        (8, 5)
+    }
+    fn __reduce27<
+    >(
+        __lookahead_start: Option<&i64>,
+        __symbols: &mut alloc::vec::Vec<(i64,__Symbol<>,i64)>,
+        _: core::marker::PhantomData<()>,
+    ) -> (usize, usize)
+    {
+        // T = T, "*", "x", "q", "x", "q", "x", "x", "q" => ActionFn(47);
+        assert!(__symbols.len() >= 9);
+        let __sym8 = __pop_Variant0(__symbols);
+        let __sym7 = __pop_Variant0(__symbols);
+        let __sym6 = __pop_Variant0(__symbols);
+        let __sym5 = __pop_Variant0(__symbols);
+        let __sym4 = __pop_Variant0(__symbols);
+        let __sym3 = __pop_Variant0(__symbols);
+        let __sym2 = __pop_Variant0(__symbols);
+        let __sym1 = __pop_Variant0(__symbols);
+        let __sym0 = __pop_Variant2(__symbols);
+        let __start = __sym0.0.clone();
+        let __end = __sym8.2.clone();
+        let __nt = super::__action47::<>(__sym0, __sym1, __sym2, __sym3, __sym4, __sym5, __sym6, __sym7, __sym8);
+        __symbols.push((__start, __Symbol::Variant2(__nt), __end));
+        (9, 5)
+    }
+    fn __reduce28<
+    >(
+        __lookahead_start: Option<&i64>,
+        __symbols: &mut alloc::vec::Vec<(i64,__Symbol<>,i64)>,
+        _: core::marker::PhantomData<()>,
+    ) -> (usize, usize)
+    {
+        // T = T, "*", "x", "q", "x", "q", "x", "q", "x" => ActionFn(48);
+        assert!(__symbols.len() >= 9);
+        let __sym8 = __pop_Variant0(__symbols);
+        let __sym7 = __pop_Variant0(__symbols);
+        let __sym6 = __pop_Variant0(__symbols);
+        let __sym5 = __pop_Variant0(__symbols);
+        let __sym4 = __pop_Variant0(__symbols);
+        let __sym3 = __pop_Variant0(__symbols);
+        let __sym2 = __pop_Variant0(__symbols);
+        let __sym1 = __pop_Variant0(__symbols);
+        let __sym0 = __pop_Variant2(__symbols);
+        let __start = __sym0.0.clone();
+        let __end = __sym8.2.clone();
+        let __nt = super::__action48::<>(__sym0, __sym1, __sym2, __sym3, __sym4, __sym5, __sym6, __sym7, __sym8);
+        __symbols.push((__start, __Symbol::Variant2(__nt), __end));
+        (9, 5)
+    }
+    fn __reduce29<
+    >(
+        __lookahead_start: Option<&i64>,
+        __symbols: &mut alloc::vec::Vec<(i64,__Symbol<>,i64)>,
+        _: core::marker::PhantomData<()>,
+    ) -> (usize, usize)
+    {
+        // T = T, "*", "x", "q", "x", "q", "x", "q", "x", "q" => ActionFn(49);
+        assert!(__symbols.len() >= 10);
+        let __sym9 = __pop_Variant0(__symbols);
+        let __sym8 = __pop_Variant0(__symbols);
+        let __sym7 = __pop_Variant0(__symbols);
+        let __sym6 = __pop_Variant0(__symbols);
+        let __sym5 = __pop_Variant0(__symbols);
+        let __sym4 = __pop_Variant0(__symbols);
+        let __sym3 = __pop_Variant0(__symbols);
+        let __sym2 = __pop_Variant0(__symbols);
+        let __sym1 = __pop_Variant0(__symbols);
+        let __sym0 = __pop_Variant2(__symbols);
+        let __start = __sym0.0.clone();
+        let __end = __sym9.2.clone();
+        let __nt = super::__action49::<>(__sym0, __sym1, __sym2, __sym3, __sym4, __sym5, __sym6, __sym7, __sym8, __sym9);
+        __symbols.push((__start, __Symbol::Variant2(__nt), __end));
+        (10, 5)
+    }
+    fn __reduce30<
+    >(
+        __lookahead_start: Option<&i64>,
+        __symbols: &mut alloc::vec::Vec<(i64,__Symbol<>,i64)>,
+        _: core::marker::PhantomData<()>,
+    ) -> (usize, usize)
+    {
+        // T = T, "*", "x", "q", "x", "q", "(", E, ")" => ActionFn(50);
+        assert!(__symbols.len() >= 9);
+        let __sym8 = __pop_Variant0(__symbols);
+        let __sym7 = __pop_Variant2(__symbols);
+        let __sym6 = __pop_Variant0(__symbols);
+        let __sym5 = __pop_Variant0(__symbols);
+        let __sym4 = __pop_Variant0(__symbols);
+        let __sym3 = __pop_Variant0(__symbols);
+        let __sym2 = __pop_Variant0(__symbols);
+        let __sym1 = __pop_Variant0(__symbols);
+        let __sym0 = __pop_Variant2(__symbols);
+        let __start = __sym0.0.clone();
+        let __end = __sym8.2.clone();
+        let __nt = super::__action50::<>(__sym0, __sym1, __sym2, __sym3, __sym4, __sym5, __sym6, __sym7, __sym8);
+        __symbols.push((__start, __Symbol::Variant2(__nt), __end));
+        (9, 5)
+    }
+    fn __reduce31<
+    >(
+        __lookahead_start: Option<&i64>,
+        __symbols: &mut alloc::vec::Vec<(i64,__Symbol<>,i64)>,
+        _: core::marker::PhantomData<()>,
+    ) -> (usize, usize)
+    {
+        // T = T, "*", "(", E, ")", "x", "x" => ActionFn(51);
+        assert!(__symbols.len() >= 7);
+        let __sym6 = __pop_Variant0(__symbols);
+        let __sym5 = __pop_Variant0(__symbols);
+        let __sym4 = __pop_Variant0(__symbols);
+        let __sym3 = __pop_Variant2(__symbols);
+        let __sym2 = __pop_Variant0(__symbols);
+        let __sym1 = __pop_Variant0(__symbols);
+        let __sym0 = __pop_Variant2(__symbols);
+        let __start = __sym0.0.clone();
+        let __end = __sym6.2.clone();
+        let __nt = super::__action51::<>(__sym0, __sym1, __sym2, __sym3, __sym4, __sym5, __sym6);
+        __symbols.push((__start, __Symbol::Variant2(__nt), __end));
+        (7, 5)
+    }
+    fn __reduce32<
+    >(
+        __lookahead_start: Option<&i64>,
+        __symbols: &mut alloc::vec::Vec<(i64,__Symbol<>,i64)>,
+        _: core::marker::PhantomData<()>,
+    ) -> (usize, usize)
+    {
+        // T = T, "*", "(", E, ")", "x", "x", "q" => ActionFn(52);
+        assert!(__symbols.len() >= 8);
+        let __sym7 = __pop_Variant0(__symbols);
+        let __sym6 = __pop_Variant0(__symbols);
+        let __sym5 = __pop_Variant0(__symbols);
+        let __sym4 = __pop_Variant0(__symbols);
+        let __sym3 = __pop_Variant2(__symbols);
+        let __sym2 = __pop_Variant0(__symbols);
+        let __sym1 = __pop_Variant0(__symbols);
+        let __sym0 = __pop_Variant2(__symbols);
+        let __start = __sym0.0.clone();
+        let __end = __sym7.2.clone();
+        let __nt = super::__action52::<>(__sym0, __sym1, __sym2, __sym3, __sym4, __sym5, __sym6, __sym7);
+        __symbols.push((__start, __Symbol::Variant2(__nt), __end));
+        (8, 5)
+    }
+    fn __reduce33<
+    >(
+        __lookahead_start: Option<&i64>,
+        __symbols: &mut alloc::vec::Vec<(i64,__Symbol<>,i64)>,
+        _: core::marker::PhantomData<()>,
+    ) -> (usize, usize)
+    {
+        // T = T, "*", "(", E, ")", "x", "q", "x" => ActionFn(53);
+        assert!(__symbols.len() >= 8);
+        let __sym7 = __pop_Variant0(__symbols);
+        let __sym6 = __pop_Variant0(__symbols);
+        let __sym5 = __pop_Variant0(__symbols);
+        let __sym4 = __pop_Variant0(__symbols);
+        let __sym3 = __pop_Variant2(__symbols);
+        let __sym2 = __pop_Variant0(__symbols);
+        let __sym1 = __pop_Variant0(__symbols);
+        let __sym0 = __pop_Variant2(__symbols);
+        let __start = __sym0.0.clone();
+        let __end = __sym7.2.clone();
+        let __nt = super::__action53::<>(__sym0, __sym1, __sym2, __sym3, __sym4, __sym5, __sym6, __sym7);
+        __symbols.push((__start, __Symbol::Variant2(__nt), __end));
+        (8, 5)
+    }
+    fn __reduce34<
+    >(
+        __lookahead_start: Option<&i64>,
+        __symbols: &mut alloc::vec::Vec<(i64,__Symbol<>,i64)>,
+        _: core::marker::PhantomData<()>,
+    ) -> (usize, usize)
+    {
+        // T = T, "*", "(", E, ")", "x", "q", "x", "q" => ActionFn(54);
+        assert!(__symbols.len() >= 9);
+        let __sym8 = __pop_Variant0(__symbols);
+        let __sym7 = __pop_Variant0(__symbols);
+        let __sym6 = __pop_Variant0(__symbols);
+        let __sym5 = __pop_Variant0(__symbols);
+        let __sym4 = __pop_Variant0(__symbols);
+        let __sym3 = __pop_Variant2(__symbols);
+        let __sym2 = __pop_Variant0(__symbols);
+        let __sym1 = __pop_Variant0(__symbols);
+        let __sym0 = __pop_Variant2(__symbols);
+        let __start = __sym0.0.clone();
+        let __end = __sym8.2.clone();
+        let __nt = super::__action54::<>(__sym0, __sym1, __sym2, __sym3, __sym4, __sym5, __sym6, __sym7, __sym8);
+        __symbols.push((__start, __Symbol::Variant2(__nt), __end));
+        (9, 5)
+    }
+    fn __reduce35<
+    >(
+        __lookahead_start: Option<&i64>,
+        __symbols: &mut alloc::vec::Vec<(i64,__Symbol<>,i64)>,
+        _: core::marker::PhantomData<()>,
+    ) -> (usize, usize)
+    {
+        // T = T, "*", "(", E, ")", "(", E, ")" => ActionFn(55);
+        assert!(__symbols.len() >= 8);
+        let __sym7 = __pop_Variant0(__symbols);
+        let __sym6 = __pop_Variant2(__symbols);
+        let __sym5 = __pop_Variant0(__symbols);
+        let __sym4 = __pop_Variant0(__symbols);
+        let __sym3 = __pop_Variant2(__symbols);
+        let __sym2 = __pop_Variant0(__symbols);
+        let __sym1 = __pop_Variant0(__symbols);
+        let __sym0 = __pop_Variant2(__symbols);
+        let __start = __sym0.0.clone();
+        let __end = __sym7.2.clone();
+        let __nt = super::__action55::<>(__sym0, __sym1, __sym2, __sym3, __sym4, __sym5, __sym6, __sym7);
+        __symbols.push((__start, __Symbol::Variant2(__nt), __end));
+        (8, 5)
+    }
+    fn __reduce36<
+    >(
+        __lookahead_start: Option<&i64>,
+        __symbols: &mut alloc::vec::Vec<(i64,__Symbol<>,i64)>,
+        _: core::marker::PhantomData<()>,
+    ) -> (usize, usize)
+    {
+        // T = "x", "x" => ActionFn(56);
+        assert!(__symbols.len() >= 2);
+        let __sym1 = __pop_Variant0(__symbols);
+        let __sym0 = __pop_Variant0(__symbols);
+        let __start = __sym0.0.clone();
+        let __end = __sym1.2.clone();
+        let __nt = super::__action56::<>(__sym0, __sym1);
+        __symbols.push((__start, __Symbol::Variant2(__nt), __end));
+        (2, 5)
+    }
+    fn __reduce37<
+    >(
+        __lookahead_start: Option<&i64>,
+        __symbols: &mut alloc::vec::Vec<(i64,__Symbol<>,i64)>,
+        _: core::marker::PhantomData<()>,
+    ) -> (usize, usize)
+    {
+        // T = "x", "x", "q" => ActionFn(57);
+        assert!(__symbols.len() >= 3);
+        let __sym2 = __pop_Variant0(__symbols);
+        let __sym1 = __pop_Variant0(__symbols);
+        let __sym0 = __pop_Variant0(__symbols);
+        let __start = __sym0.0.clone();
+        let __end = __sym2.2.clone();
+        let __nt = super::__action57::<>(__sym0, __sym1, __sym2);
+        __symbols.push((__start, __Symbol::Variant2(__nt), __end));
+        (3, 5)
+    }
+    fn __reduce38<
+    >(
+        __lookahead_start: Option<&i64>,
+        __symbols: &mut alloc::vec::Vec<(i64,__Symbol<>,i64)>,
+        _: core::marker::PhantomData<()>,
+    ) -> (usize, usize)
+    {
+        // T = "x", "q", "x" => ActionFn(58);
+        assert!(__symbols.len() >= 3);
+        let __sym2 = __pop_Variant0(__symbols);
+        let __sym1 = __pop_Variant0(__symbols);
+        let __sym0 = __pop_Variant0(__symbols);
+        let __start = __sym0.0.clone();
+        let __end = __sym2.2.clone();
+        let __nt = super::__action58::<>(__sym0, __sym1, __sym2);
+        __symbols.push((__start, __Symbol::Variant2(__nt), __end));
+        (3, 5)
+    }
+    fn __reduce39<
+    >(
+        __lookahead_start: Option<&i64>,
+        __symbols: &mut alloc::vec::Vec<(i64,__Symbol<>,i64)>,
+        _: core::marker::PhantomData<()>,
+    ) -> (usize, usize)
+    {
+        // T = "x", "q", "x", "q" => ActionFn(59);
+        assert!(__symbols.len() >= 4);
+        let __sym3 = __pop_Variant0(__symbols);
+        let __sym2 = __pop_Variant0(__symbols);
+        let __sym1 = __pop_Variant0(__symbols);
+        let __sym0 = __pop_Variant0(__symbols);
+        let __start = __sym0.0.clone();
+        let __end = __sym3.2.clone();
+        let __nt = super::__action59::<>(__sym0, __sym1, __sym2, __sym3);
+        __symbols.push((__start, __Symbol::Variant2(__nt), __end));
+        (4, 5)
+    }
+    fn __reduce40<
+    >(
+        __lookahead_start: Option<&i64>,
+        __symbols: &mut alloc::vec::Vec<(i64,__Symbol<>,i64)>,
+        _: core::marker::PhantomData<()>,
+    ) -> (usize, usize)
+    {
+        // T = "(", E, ")" => ActionFn(60);
+        assert!(__symbols.len() >= 3);
+        let __sym2 = __pop_Variant0(__symbols);
+        let __sym1 = __pop_Variant2(__symbols);
+        let __sym0 = __pop_Variant0(__symbols);
+        let __start = __sym0.0.clone();
+        let __end = __sym2.2.clone();
+        let __nt = super::__action60::<>(__sym0, __sym1, __sym2);
+        __symbols.push((__start, __Symbol::Variant2(__nt), __end));
+        (3, 5)
     }
 }
 #[allow(unused_imports)]
-pub use self::___parse_______x::____xParser;
+pub use self::__parse__E::EParser;
 
 #[allow(clippy::too_many_arguments, clippy::needless_lifetimes, clippy::just_underscores_and_digits, clippy::extra_unused_type_parameters)]
-fn ___action0<
+fn __action0<
 >(
-    (_, ___0, _): (i64, Tree, i64),
+    (_, __0, _): (i64, Tree, i64),
 ) -> Tree
 {
-    ___0
+    __0
 }
 
 #[allow(clippy::too_many_arguments, clippy::needless_lifetimes, clippy::just_underscores_and_digits, clippy::extra_unused_type_parameters)]
-fn ___action1<
+fn __action1<
 >(
-    (_, ___1, _): (i64, i64, i64),
-    (_, __sym0, _): (i64, Tok, i64),
-    (_, __lookbehind, _): (i64, Tok, i64),
-    (_, v, _): (i64, Tree, i64),
-    (_, __e, _): (i64, i64, i64),
+    (_, l, _): (i64, i64, i64),
+    (_, c0, _): (i64, Tree, i64),
+    (_, c1, _): (i64, Tok, i64),
+    (_, c2, _): (i64, Tree, i64),
+    (_, r, _): (i64, i64, i64),
 ) -> Tree
 {
-    node("____x#0", ___1, __e, vec![Tree::from(__sym0), Tree::from(__lookbehind), Tree::from(v)])
+    node("E#0", l, r, vec![Tree::from(c0), Tree::from(c1), Tree::from(c2)])
 }
 
 #[allow(clippy::too_many_arguments, clippy::needless_lifetimes, clippy::just_underscores_and_digits, clippy::extra_unused_type_parameters)]
-fn ___action2<
+fn __action2<
 >(
-    (_, ___1, _): (i64, i64, i64),
-    (_, __e, _): (i64, i64, i64),
+    (_, l, _): (i64, i64, i64),
+    (_, c0, _): (i64, Tree, i64),
+    (_, r, _): (i64, i64, i64),
 ) -> Tree
 {
-    node("____x1#0", ___1, __e, vec![])
+    node("E#1", l, r, vec![Tree::from(c0)])
 }
 
 #[allow(clippy::too_many_arguments, clippy::needless_lifetimes, clippy::just_underscores_and_digits, clippy::extra_unused_type_parameters)]
-fn ___action3<
+fn __action3<
 >(
-    (_, ___1, _): (i64, i64, i64),
-    (_, __sym0, _): (i64, Tree, i64),
-    (_, __lookbehind, _): (i64, Tok, i64),
-    (_, v, _): (i64, Tok, i64),
-    (_, __e, _): (i64, i64, i64),
+    (_, l, _): (i64, i64, i64),
+    (_, c0, _): (i64, Tree, i64),
+    (_, c1, _): (i64, Tok, i64),
+    (_, c2, _): (i64, Tree, i64),
+    (_, c3, _): (i64, Tree, i64),
+    (_, r, _): (i64, i64, i64),
 ) -> Tree
 {
-    node("____x1#1", ___1, __e, vec![Tree::from(__sym0), Tree::from(__lookbehind), Tree::from(v)])
+    node("T#0", l, r, vec![Tree::from(c0), Tree::from(c1), Tree::from(c2), Tree::from(c3)])
+}
+
+#[allow(clippy::too_many_arguments, clippy::needless_lifetimes, clippy::just_underscores_and_digits, clippy::extra_unused_type_parameters)]
+fn __action4<
+>(
+    (_, l, _): (i64, i64, i64),
+    (_, c0, _): (i64, Tree, i64),
+    (_, r, _): (i64, i64, i64),
+) -> Tree
+{
+    node("T#1", l, r, vec![Tree::from(c0)])
+}
+
+#[allow(clippy::too_many_arguments, clippy::needless_lifetimes, clippy::just_underscores_and_digits, clippy::extra_unused_type_parameters)]
+fn __action5<
+>(
+    (_, l, _): (i64, i64, i64),
+    (_, c0, _): (i64, Tree, i64),
+    (_, c1, _): (i64, Tree, i64),
+    (_, r, _): (i64, i64, i64),
+) -> Tree
+{
+    node("F#0", l, r, vec![Tree::from(c0), Tree::from(c1)])
+}
+
+#[allow(clippy::too_many_arguments, clippy::needless_lifetimes, clippy::just_underscores_and_digits, clippy::extra_unused_type_parameters)]
+fn __action6<
+>(
+    (_, l, _): (i64, i64, i64),
+    (_, c0, _): (i64, Tok, i64),
+    (_, c1, _): (i64, Tree, i64),
+    (_, c2, _): (i64, Tok, i64),
+    (_, r, _): (i64, i64, i64),
+) -> Tree
+{
+    node("F#1", l, r, vec![Tree::from(c0), Tree::from(c1), Tree::from(c2)])
+}
+
+#[allow(clippy::too_many_arguments, clippy::needless_lifetimes, clippy::just_underscores_and_digits, clippy::extra_unused_type_parameters)]
+fn __action7<
+>(
+    (_, l, _): (i64, i64, i64),
+    (_, c0, _): (i64, Tok, i64),
+    (_, r, _): (i64, i64, i64),
+) -> Tree
+{
+    node("A#0", l, r, vec![Tree::from(c0)])
+}
+
+#[allow(clippy::too_many_arguments, clippy::needless_lifetimes, clippy::just_underscores_and_digits, clippy::extra_unused_type_parameters)]
+fn __action8<
+>(
+    (_, l, _): (i64, i64, i64),
+    (_, c0, _): (i64, Tok, i64),
+    (_, c1, _): (i64, Tok, i64),
+    (_, r, _): (i64, i64, i64),
+) -> Tree
+{
+    node("A#1", l, r, vec![Tree::from(c0), Tree::from(c1)])
 }
 
 #[allow(clippy::needless_lifetimes, clippy::clone_on_copy)]
-fn ___action4<
+fn __action9<
 >(
-    ___lookbehind: &i64,
-    ___lookahead: &i64,
+    __lookbehind: &i64,
+    __lookahead: &i64,
 ) -> i64
 {
-    ___lookbehind.clone()
+    __lookbehind.clone()
 }
 
 #[allow(clippy::needless_lifetimes, clippy::clone_on_copy)]
-fn ___action5<
+fn __action10<
 >(
-    ___lookbehind: &i64,
-    ___lookahead: &i64,
+    __lookbehind: &i64,
+    __lookahead: &i64,
 ) -> i64
 {
-    ___lookahead.clone()
+    __lookahead.clone()
 }
 
 #[allow(clippy::too_many_arguments, clippy::needless_lifetimes,
     clippy::just_underscores_and_digits, clippy::clone_on_copy, clippy::unit_arg)]
-fn ___action6<
+fn __action11<
 >(
-    ___0: (i64, Tok, i64),
-    ___1: (i64, Tok, i64),
-    ___2: (i64, Tree, i64),
-    ___3: (i64, i64, i64),
+    __0: (i64, Tok, i64),
+    __1: (i64, i64, i64),
 ) -> Tree
 {
-    let ___start0 = ___0.0.clone();
-    let ___end0 = ___0.0.clone();
-    let ___temp0 = ___action5(
-        &___start0,
-        &___end0,
+    let __start0 = __0.0.clone();
+    let __end0 = __0.0.clone();
+    let __temp0 = __action10(
+        &__start0,
+        &__end0,
     );
-    let ___temp0 = (___start0, ___temp0, ___end0);
-    ___action1(
-        ___temp0,
-        ___0,
-        ___1,
-        ___2,
-        ___3,
+    let __temp0 = (__start0, __temp0, __end0);
+    __action7(
+        __temp0,
+        __0,
+        __1,
     )
 }
 
 #[allow(clippy::too_many_arguments, clippy::needless_lifetimes,
     clippy::just_underscores_and_digits, clippy::clone_on_copy, clippy::unit_arg)]
-fn ___action7<
+fn __action12<
 >(
-    ___0: (i64, i64, i64),
+    __0: (i64, Tok, i64),
+    __1: (i64, Tok, i64),
+    __2: (i64, i64, i64),
 ) -> Tree
 {
-    let ___start0 = ___0.0.clone();
-    let ___end0 = ___0.0.clone();
-    let ___temp0 = ___action5(
-        &___start0,
-        &___end0,
+    let __start0 = __0.0.clone();
+    let __end0 = __0.0.clone();
+    let __temp0 = __action10(
+        &__start0,
+        &__end0,
     );
-    let ___temp0 = (___start0, ___temp0, ___end0);
-    ___action2(
-        ___temp0,
-        ___0,
+    let __temp0 = (__start0, __temp0, __end0);
+    __action8(
+        __temp0,
+        __0,
+        __1,
+        __2,
     )
 }
 
 #[allow(clippy::too_many_arguments, clippy::needless_lifetimes,
     clippy::just_underscores_and_digits, clippy::clone_on_copy, clippy::unit_arg)]
-fn ___action8<
+fn __action13<
 >(
-    ___0: (i64, Tree, i64),
-    ___1: (i64, Tok, i64),
-    ___2: (i64, Tok, i64),
-    ___3: (i64, i64, i64),
+    __0: (i64, Tree, i64),
+    __1: (i64, Tok, i64),
+    __2: (i64, Tree, i64),
+    __3: (i64, i64, i64),
 ) -> Tree
 {
-    let ___start0 = ___0.0.clone();
-    let ___end0 = ___0.0.clone();
-    let ___temp0 = ___action5(
-        &___start0,
-        &___end0,
+    let __start0 = __0.0.clone();
+    let __end0 = __0.0.clone();
+    let __temp0 = __action10(
+        &__start0,
+        &__end0,
     );
-    let ___temp0 = (___start0, ___temp0, ___end0);
-    ___action3(
-        ___temp0,
-        ___0,
-        ___1,
-        ___2,
-        ___3,
+    let __temp0 = (__start0, __temp0, __end0);
+    __action1(
+        __temp0,
+        __0,
+        __1,
+        __2,
+        __3,
     )
 }
 
 #[allow(clippy::too_many_arguments, clippy::needless_lifetimes,
     clippy::just_underscores_and_digits, clippy::clone_on_copy, clippy::unit_arg)]
-fn ___action9<
+fn __action14<
 >(
-    ___0: (i64, Tok, i64),
-    ___1: (i64, Tok, i64),
-    ___2: (i64, Tree, i64),
+    __0: (i64, Tree, i64),
+    __1: (i64, i64, i64),
 ) -> Tree
 {
-    let ___start0 = ___2.2.clone();
-    let ___end0 = ___2.2.clone();
-    let ___temp0 = ___action4(
-        &___start0,
-        &___end0,
+    let __start0 = __0.0.clone();
+    let __end0 = __0.0.clone();
+    let __temp0 = __action10(
+        &__start0,
+        &__end0,
     );
-    let ___temp0 = (___start0, ___temp0, ___end0);
-    ___action6(
-        ___0,
-        ___1,
-        ___2,
-        ___temp0,
+    let __temp0 = (__start0, __temp0, __end0);
+    __action2(
+        __temp0,
+        __0,
+        __1,
     )
 }
 
 #[allow(clippy::too_many_arguments, clippy::needless_lifetimes,
     clippy::just_underscores_and_digits, clippy::clone_on_copy, clippy::unit_arg)]
-fn ___action10<
+fn __action15<
 >(
-    ___lookbehind: &i64,
-    ___lookahead: &i64,
+    __0: (i64, Tree, i64),
+    __1: (i64, Tree, i64),
+    __2: (i64, i64, i64),
 ) -> Tree
 {
-    let ___start0 = ___lookbehind.clone();
-    let ___end0 = ___lookahead.clone();
-    let ___temp0 = ___action4(
-        &___start0,
-        &___end0,
+    let __start0 = __0.0.clone();
+    let __end0 = __0.0.clone();
+    let __temp0 = __action10(
+        &__start0,
+        &__end0,
     );
-    let ___temp0 = (___start0, ___temp0, ___end0);
-    ___action7(
-        ___temp0,
+    let __temp0 = (__start0, __temp0, __end0);
+    __action5(
+        __temp0,
+        __0,
+        __1,
+        __2,
     )
 }
 
 #[allow(clippy::too_many_arguments, clippy::needless_lifetimes,
     clippy::just_underscores_and_digits, clippy::clone_on_copy, clippy::unit_arg)]
-fn ___action11<
+fn __action16<
 >(
-    ___0: (i64, Tree, i64),
-    ___1: (i64, Tok, i64),
-    ___2: (i64, Tok, i64),
+    __0: (i64, Tok, i64),
+    __1: (i64, Tree, i64),
+    __2: (i64, Tok, i64),
+    __3: (i64, i64, i64),
 ) -> Tree
 {
-    let ___start0 = ___2.2.clone();
-    let ___end0 = ___2.2.clone();
-    let ___temp0 = ___action4(
-        &___start0,
-        &___end0,
+    let __start0 = __0.0.clone();
+    let __end0 = __0.0.clone();
+    let __temp0 = __action10(
+        &__start0,
+        &__end0,
     );
-    let ___temp0 = (___start0, ___temp0, ___end0);
-    ___action8(
-        ___0,
-        ___1,
-        ___2,
-        ___temp0,
+    let __temp0 = (__start0, __temp0, __end0);
+    __action6(
+        __temp0,
+        __0,
+        __1,
+        __2,
+        __3,
+    )
+}
+
+#[allow(clippy::too_many_arguments, clippy::needless_lifetimes,
+    clippy::just_underscores_and_digits, clippy::clone_on_copy, clippy::unit_arg)]
+fn __action17<
+>(
+    __0: (i64, Tree, i64),
+    __1: (i64, Tok, i64),
+    __2: (i64, Tree, i64),
+    __3: (i64, Tree, i64),
+    __4: (i64, i64, i64),
+) -> Tree
+{
+    let __start0 = __0.0.clone();
+    let __end0 = __0.0.clone();
+    let __temp0 = __action10(
+        &__start0,
+        &__end0,
+    );
+    let __temp0 = (__start0, __temp0, __end0);
+    __action3(
+        __temp0,
+        __0,
+        __1,
+        __2,
+        __3,
+        __4,
+    )
+}
+
+#[allow(clippy::too_many_arguments, clippy::needless_lifetimes,
+    clippy::just_underscores_and_digits, clippy::clone_on_copy, clippy::unit_arg)]
+fn __action18<
+>(
+    __0: (i64, Tree, i64),
+    __1: (i64, i64, i64),
+) -> Tree
+{
+    let __start0 = __0.0.clone();
+    let __end0 = __0.0.clone();
+    let __temp0 = __action10(
+        &__start0,
+        &__end0,
+    );
+    let __temp0 = (__start0, __temp0, __end0);
+    __action4(
+        __temp0,
+        __0,
+        __1,
+    )
+}
+
+#[allow(clippy::too_many_arguments, clippy::needless_lifetimes,
+    clippy::just_underscores_and_digits, clippy::clone_on_copy, clippy::unit_arg)]
+fn __action19<
+>(
+    __0: (i64, Tok, i64),
+) -> Tree
+{
+    let __start0 = __0.2.clone();
+    let __end0 = __0.2.clone();
+    let __temp0 = __action9(
+        &__start0,
+        &__end0,
+    );
+    let __temp0 = (__start0, __temp0, __end0);
+    __action11(
+        __0,
+        __temp0,
+    )
+}
+
+#[allow(clippy::too_many_arguments, clippy::needless_lifetimes,
+    clippy::just_underscores_and_digits, clippy::clone_on_copy, clippy::unit_arg)]
+fn __action20<
+>(
+    __0: (i64, Tok, i64),
+    __1: (i64, Tok, i64),
+) -> Tree
+{
+    let __start0 = __1.2.clone();
+    let __end0 = __1.2.clone();
+    let __temp0 = __action9(
+        &__start0,
+        &__end0,
+    );
+    let __temp0 = (__start0, __temp0, __end0);
+    __action12(
+        __0,
+        __1,
+        __temp0,
+    )
+}
+
+#[allow(clippy::too_many_arguments, clippy::needless_lifetimes,
+    clippy::just_underscores_and_digits, clippy::clone_on_copy, clippy::unit_arg)]
+fn __action21<
+>(
+    __0: (i64, Tree, i64),
+    __1: (i64, Tok, i64),
+    __2: (i64, Tree, i64),
+) -> Tree
+{
+    let __start0 = __2.2.clone();
+    let __end0 = __2.2.clone();
+    let __temp0 = __action9(
+        &__start0,
+        &__end0,
+    );
+    let __temp0 = (__start0, __temp0, __end0);
+    __action13(
+        __0,
+        __1,
+        __2,
+        __temp0,
+    )
+}
+
+#[allow(clippy::too_many_arguments, clippy::needless_lifetimes,
+    clippy::just_underscores_and_digits, clippy::clone_on_copy, clippy::unit_arg)]
+fn __action22<
+>(
+    __0: (i64, Tree, i64),
+) -> Tree
+{
+    let __start0 = __0.2.clone();
+    let __end0 = __0.2.clone();
+    let __temp0 = __action9(
+        &__start0,
+        &__end0,
+    );
+    let __temp0 = (__start0, __temp0, __end0);
+    __action14(
+        __0,
+        __temp0,
+    )
+}
+
+#[allow(clippy::too_many_arguments, clippy::needless_lifetimes,
+    clippy::just_underscores_and_digits, clippy::clone_on_copy, clippy::unit_arg)]
+fn __action23<
+>(
+    __0: (i64, Tree, i64),
+    __1: (i64, Tree, i64),
+) -> Tree
+{
+    let __start0 = __1.2.clone();
+    let __end0 = __1.2.clone();
+    let __temp0 = __action9(
+        &__start0,
+        &__end0,
+    );
+    let __temp0 = (__start0, __temp0, __end0);
+    __action15(
+        __0,
+        __1,
+        __temp0,
+    )
+}
+
+#[allow(clippy::too_many_arguments, clippy::needless_lifetimes,
+    clippy::just_underscores_and_digits, clippy::clone_on_copy, clippy::unit_arg)]
+fn __action24<
+>(
+    __0: (i64, Tok, i64),
+    __1: (i64, Tree, i64),
+    __2: (i64, Tok, i64),
+) -> Tree
+{
+    let __start0 = __2.2.clone();
+    let __end0 = __2.2.clone();
+    let __temp0 = __action9(
+        &__start0,
+        &__end0,
+    );
+    let __temp0 = (__start0, __temp0, __end0);
+    __action16(
+        __0,
+        __1,
+        __2,
+        __temp0,
+    )
+}
+
+#[allow(clippy::too_many_arguments, clippy::needless_lifetimes,
+    clippy::just_underscores_and_digits, clippy::clone_on_copy, clippy::unit_arg)]
+fn __action25<
+>(
+    __0: (i64, Tree, i64),
+    __1: (i64, Tok, i64),
+    __2: (i64, Tree, i64),
+    __3: (i64, Tree, i64),
+) -> Tree
+{
+    let __start0 = __3.2.clone();
+    let __end0 = __3.2.clone();
+    let __temp0 = __action9(
+        &__start0,
+        &__end0,
+    );
+    let __temp0 = (__start0, __temp0, __end0);
+    __action17(
+        __0,
+        __1,
+        __2,
+        __3,
+        __temp0,
+    )
+}
+
+#[allow(clippy::too_many_arguments, clippy::needless_lifetimes,
+    clippy::just_underscores_and_digits, clippy::clone_on_copy, clippy::unit_arg)]
+fn __action26<
+>(
+    __0: (i64, Tree, i64),
+) -> Tree
+{
+    let __start0 = __0.2.clone();
+    let __end0 = __0.2.clone();
+    let __temp0 = __action9(
+        &__start0,
+        &__end0,
+    );
+    let __temp0 = (__start0, __temp0, __end0);
+    __action18(
+        __0,
+        __temp0,
+    )
+}
+
+#[allow(clippy::too_many_arguments, clippy::needless_lifetimes,
+    clippy::just_underscores_and_digits, clippy::clone_on_copy, clippy::unit_arg)]
+fn __action27<
+>(
+    __0: (i64, Tok, i64),
+    __1: (i64, Tok, i64),
+) -> Tree
+{
+    let __start0 = __0.0.clone();
+    let __end0 = __0.2.clone();
+    let __start1 = __1.0.clone();
+    let __end1 = __1.2.clone();
+    let __temp0 = __action19(
+        __0,
+    );
+    let __temp0 = (__start0, __temp0, __end0);
+    let __temp1 = __action19(
+        __1,
+    );
+    let __temp1 = (__start1, __temp1, __end1);
+    __action23(
+        __temp0,
+        __temp1,
+    )
+}
+
+#[allow(clippy::too_many_arguments, clippy::needless_lifetimes,
+    clippy::just_underscores_and_digits, clippy::clone_on_copy, clippy::unit_arg)]
+fn __action28<
+>(
+    __0: (i64, Tok, i64),
+    __1: (i64, Tok, i64),
+    __2: (i64, Tok, i64),
+) -> Tree
+{
+    let __start0 = __0.0.clone();
+    let __end0 = __0.2.clone();
+    let __start1 = __1.0.clone();
+    let __end1 = __2.2.clone();
+    let __temp0 = __action19(
+        __0,
+    );
+    let __temp0 = (__start0, __temp0, __end0);
+    let __temp1 = __action20(
+        __1,
+        __2,
+    );
+    let __temp1 = (__start1, __temp1, __end1);
+    __action23(
+        __temp0,
+        __temp1,
+    )
+}
+
+#[allow(clippy::too_many_arguments, clippy::needless_lifetimes,
+    clippy::just_underscores_and_digits, clippy::clone_on_copy, clippy::unit_arg)]
+fn __action29<
+>(
+    __0: (i64, Tok, i64),
+    __1: (i64, Tok, i64),
+    __2: (i64, Tok, i64),
+) -> Tree
+{
+    let __start0 = __0.0.clone();
+    let __end0 = __1.2.clone();
+    let __start1 = __2.0.clone();
+    let __end1 = __2.2.clone();
+    let __temp0 = __action20(
+        __0,
+        __1,
+    );
+    let __temp0 = (__start0, __temp0, __end0);
+    let __temp1 = __action19(
+        __2,
+    );
+    let __temp1 = (__start1, __temp1, __end1);
+    __action23(
+        __temp0,
+        __temp1,
+    )
+}
+
+#[allow(clippy::too_many_arguments, clippy::needless_lifetimes,
+    clippy::just_underscores_and_digits, clippy::clone_on_copy, clippy::unit_arg)]
+fn __action30<
+>(
+    __0: (i64, Tok, i64),
+    __1: (i64, Tok, i64),
+    __2: (i64, Tok, i64),
+    __3: (i64, Tok, i64),
+) -> Tree
+{
+    let __start0 = __0.0.clone();
+    let __end0 = __1.2.clone();
+    let __start1 = __2.0.clone();
+    let __end1 = __3.2.clone();
+    let __temp0 = __action20(
+        __0,
+        __1,
+    );
+    let __temp0 = (__start0, __temp0, __end0);
+    let __temp1 = __action20(
+        __2,
+        __3,
+    );
+    let __temp1 = (__start1, __temp1, __end1);
+    __action23(
+        __temp0,
+        __temp1,
+    )
+}
+
+#[allow(clippy::too_many_arguments, clippy::needless_lifetimes,
+    clippy::just_underscores_and_digits, clippy::clone_on_copy, clippy::unit_arg)]
+fn __action31<
+>(
+    __0: (i64, Tree, i64),
+    __1: (i64, Tok, i64),
+    __2: (i64, Tok, i64),
+    __3: (i64, Tok, i64),
+    __4: (i64, Tok, i64),
+    __5: (i64, Tok, i64),
+) -> Tree
+{
+    let __start0 = __2.0.clone();
+    let __end0 = __3.2.clone();
+    let __start1 = __4.0.clone();
+    let __end1 = __5.2.clone();
+    let __temp0 = __action27(
+        __2,
+        __3,
+    );
+    let __temp0 = (__start0, __temp0, __end0);
+    let __temp1 = __action27(
+        __4,
+        __5,
+    );
+    let __temp1 = (__start1, __temp1, __end1);
+    __action25(
+        __0,
+        __1,
+        __temp0,
+        __temp1,
+    )
+}
+
+#[allow(clippy::too_many_arguments, clippy::needless_lifetimes,
+    clippy::just_underscores_and_digits, clippy::clone_on_copy, clippy::unit_arg)]
+fn __action32<
+>(
+    __0: (i64, Tree, i64),
+    __1: (i64, Tok, i64),
+    __2: (i64, Tok, i64),
+    __3: (i64, Tok, i64),
+    __4: (i64, Tok, i64),
+    __5: (i64, Tok, i64),
+    __6: (i64, Tok, i64),
+) -> Tree
+{
+    let __start0 = __2.0.clone();
+    let __end0 = __3.2.clone();
+    let __start1 = __4.0.clone();
+    let __end1 = __6.2.clone();
+    let __temp0 = __action27(
+        __2,
+        __3,
+    );
+    let __temp0 = (__start0, __temp0, __end0);
+    let __temp1 = __action28(
+        __4,
+        __5,
+        __6,
+    );
+    let __temp1 = (__start1, __temp1, __end1);
+    __action25(
+        __0,
+        __1,
+        __temp0,
+        __temp1,
+    )
+}
+
+#[allow(clippy::too_many_arguments, clippy::needless_lifetimes,
+    clippy::just_underscores_and_digits, clippy::clone_on_copy, clippy::unit_arg)]
+fn __action33<
+>(
+    __0: (i64, Tree, i64),
+    __1: (i64, Tok, i64),
+    __2: (i64, Tok, i64),
+    __3: (i64, Tok, i64),
+    __4: (i64, Tok, i64),
+    __5: (i64, Tok, i64),
+    __6: (i64, Tok, i64),
+) -> Tree
+{
+    let __start0 = __2.0.clone();
+    let __end0 = __3.2.clone();
+    let __start1 = __4.0.clone();
+    let __end1 = __6.2.clone();
+    let __temp0 = __action27(
+        __2,
+        __3,
+    );
+    let __temp0 = (__start0, __temp0, __end0);
+    let __temp1 = __action29(
+        __4,
+        __5,
+        __6,
+    );
+    let __temp1 = (__start1, __temp1, __end1);
+    __action25(
+        __0,
+        __1,
+        __temp0,
+        __temp1,
+    )
+}
+
+#[allow(clippy::too_many_arguments, clippy::needless_lifetimes,
+    clippy::just_underscores_and_digits, clippy::clone_on_copy, clippy::unit_arg)]
+fn __action34<
+>(
+    __0: (i64, Tree, i64),
+    __1: (i64, Tok, i64),
+    __2: (i64, Tok, i64),
+    __3: (i64, Tok, i64),
+    __4: (i64, Tok, i64),
+    __5: (i64, Tok, i64),
+    __6: (i64, Tok, i64),
+    __7: (i64, Tok, i64),
+) -> Tree
+{
+    let __start0 = __2.0.clone();
+    let __end0 = __3.2.clone();
+    let __start1 = __4.0.clone();
+    let __end1 = __7.2.clone();
+    let __temp0 = __action27(
+        __2,
+        __3,
+    );
+    let __temp0 = (__start0, __temp0, __end0);
+    let __temp1 = __action30(
+        __4,
+        __5,
+        __6,
+        __7,
+    );
+    let __temp1 = (__start1, __temp1, __end1);
+    __action25(
+        __0,
+        __1,
+        __temp0,
+        __temp1,
+    )
+}
+
+#[allow(clippy::too_many_arguments, clippy::needless_lifetimes,
+    clippy::just_underscores_and_digits, clippy::clone_on_copy, clippy::unit_arg)]
+fn __action35<
+>(
+    __0: (i64, Tree, i64),
+    __1: (i64, Tok, i64),
+    __2: (i64, Tok, i64),
+    __3: (i64, Tok, i64),
+    __4: (i64, Tok, i64),
+    __5: (i64, Tree, i64),
+    __6: (i64, Tok, i64),
+) -> Tree
+{
+    let __start0 = __2.0.clone();
+    let __end0 = __3.2.clone();
+    let __start1 = __4.0.clone();
+    let __end1 = __6.2.clone();
+    let __temp0 = __action27(
+        __2,
+        __3,
+    );
+    let __temp0 = (__start0, __temp0, __end0);
+    let __temp1 = __action24(
+        __4,
+        __5,
+        __6,
+    );
+    let __temp1 = (__start1, __temp1, __end1);
+    __action25(
+        __0,
+        __1,
+        __temp0,
+        __temp1,
+    )
+}
+
+#[allow(clippy::too_many_arguments, clippy::needless_lifetimes,
+    clippy::just_underscores_and_digits, clippy::clone_on_copy, clippy::unit_arg)]
+fn __action36<
+>(
+    __0: (i64, Tree, i64),
+    __1: (i64, Tok, i64),
+    __2: (i64, Tok, i64),
+    __3: (i64, Tok, i64),
+    __4: (i64, Tok, i64),
+    __5: (i64, Tok, i64),
+    __6: (i64, Tok, i64),
+) -> Tree
+{
+    let __start0 = __2.0.clone();
+    let __end0 = __4.2.clone();
+    let __start1 = __5.0.clone();
+    let __end1 = __6.2.clone();
+    let __temp0 = __action28(
+        __2,
+        __3,
+        __4,
+    );
+    let __temp0 = (__start0, __temp0, __end0);
+    let __temp1 = __action27(
+        __5,
+        __6,
+    );
+    let __temp1 = (__start1, __temp1, __end1);
+    __action25(
+        __0,
+        __1,
+        __temp0,
+        __temp1,
+    )
+}
+
+#[allow(clippy::too_many_arguments, clippy::needless_lifetimes,
+    clippy::just_underscores_and_digits, clippy::clone_on_copy, clippy::unit_arg)]
+fn __action37<
+>(
+    __0: (i64, Tree, i64),
+    __1: (i64, Tok, i64),
+    __2: (i64, Tok, i64),
+    __3: (i64, Tok, i64),
+    __4: (i64, Tok, i64),
+    __5: (i64, Tok, i64),
+    __6: (i64, Tok, i64),
+    __7: (i64, Tok, i64),
+) -> Tree
+{
+    let __start0 = __2.0.clone();
+    let __end0 = __4.2.clone();
+    let __start1 = __5.0.clone();
+    let __end1 = __7.2.clone();
+    let __temp0 = __action28(
+        __2,
+        __3,
+        __4,
+    );
+    let __temp0 = (__start0, __temp0, __end0);
+    let __temp1 = __action28(
+        __5,
+        __6,
+        __7,
+    );
+    let __temp1 = (__start1, __temp1, __end1);
+    __action25(
+        __0,
+        __1,
+        __temp0,
+        __temp1,
+    )
+}
+
+#[allow(clippy::too_many_arguments, clippy::needless_lifetimes,
+    clippy::just_underscores_and_digits, clippy::clone_on_copy, clippy::unit_arg)]
+fn __action38<
+>(
+    __0: (i64, Tree, i64),
+    __1: (i64, Tok, i64),
+    __2: (i64, Tok, i64),
+    __3: (i64, Tok, i64),
+    __4: (i64, Tok, i64),
+    __5: (i64, Tok, i64),
+    __6: (i64, Tok, i64),
+    __7: (i64, Tok, i64),
+) -> Tree
+{
+    let __start0 = __2.0.clone();
+    let __end0 = __4.2.clone();
+    let __start1 = __5.0.clone();
+    let __end1 = __7.2.clone();
+    let __temp0 = __action28(
+        __2,
+        __3,
+        __4,
+    );
+    let __temp0 = (__start0, __temp0, __end0);
+    let __temp1 = __action29(
+        __5,
+        __6,
+        __7,
+    );
+    let __temp1 = (__start1, __temp1, __end1);
+    __action25(
+        __0,
+        __1,
+        __temp0,
+        __temp1,
+    )
+}
+
+#[allow(clippy::too_many_arguments, clippy::needless_lifetimes,
+    clippy::just_underscores_and_digits, clippy::clone_on_copy, clippy::unit_arg)]
+fn __action39<
+>(
+    __0: (i64, Tree, i64),
+    __1: (i64, Tok, i64),
+    __2: (i64, Tok, i64),
+    __3: (i64, Tok, i64),
+    __4: (i64, Tok, i64),
+    __5: (i64, Tok, i64),
+    __6: (i64, Tok, i64),
+    __7: (i64, Tok, i64),
+    __8: (i64, Tok, i64),
+) -> Tree
+{
+    let __start0 = __2.0.clone();
+    let __end0 = __4.2.clone();
+    let __start1 = __5.0.clone();
+    let __end1 = __8.2.clone();
+    let __temp0 = __action28(
+        __2,
+        __3,
+        __4,
+    );
+    let __temp0 = (__start0, __temp0, __end0);
+    let __temp1 = __action30(
+        __5,
+        __6,
+        __7,
+        __8,
+    );
+    let __temp1 = (__start1, __temp1, __end1);
+    __action25(
+        __0,
+        __1,
+        __temp0,
+        __temp1,
+    )
+}
+
+#[allow(clippy::too_many_arguments, clippy::needless_lifetimes,
+    clippy::just_underscores_and_digits, clippy::clone_on_copy, clippy::unit_arg)]
+fn __action40<
+>(
+    __0: (i64, Tree, i64),
+    __1: (i64, Tok, i64),
+    __2: (i64, Tok, i64),
+    __3: (i64, Tok, i64),
+    __4: (i64, Tok, i64),
+    __5: (i64, Tok, i64),
+    __6: (i64, Tree, i64),
+    __7: (i64, Tok, i64),
+) -> Tree
+{
+    let __start0 = __2.0.clone();
+    let __end0 = __4.2.clone();
+    let __start1 = __5.0.clone();
+    let __end1 = __7.2.clone();
+    let __temp0 = __action28(
+        __2,
+        __3,
+        __4,
+    );
+    let __temp0 = (__start0, __temp0, __end0);
+    let __temp1 = __action24(
+        __5,
+        __6,
+        __7,
+    );
+    let __temp1 = (__start1, __temp1, __end1);
+    __action25(
+        __0,
+        __1,
+        __temp0,
+        __temp1,
+    )
+}
+
+#[allow(clippy::too_many_arguments, clippy::needless_lifetimes,
+    clippy::just_underscores_and_digits, clippy::clone_on_copy, clippy::unit_arg)]
+fn __action41<
+>(
+    __0: (i64, Tree, i64),
+    __1: (i64, Tok, i64),
+    __2: (i64, Tok, i64),
+    __3: (i64, Tok, i64),
+    __4: (i64, Tok, i64),
+    __5: (i64, Tok, i64),
+    __6: (i64, Tok, i64),
+) -> Tree
+{
+    let __start0 = __2.0.clone();
+    let __end0 = __4.2.clone();
+    let __start1 = __5.0.clone();
+    let __end1 = __6.2.clone();
+    let __temp0 = __action29(
+        __2,
+        __3,
+        __4,
+    );
+    let __temp0 = (__start0, __temp0, __end0);
+    let __temp1 = __action27(
+        __5,
+        __6,
+    );
+    let __temp1 = (__start1, __temp1, __end1);
+    __action25(
+        __0,
+        __1,
+        __temp0,
+        __temp1,
+    )
+}
+
+#[allow(clippy::too_many_arguments, clippy::needless_lifetimes,
+    clippy::just_underscores_and_digits, clippy::clone_on_copy, clippy::unit_arg)]
+fn __action42<
+>(
+    __0: (i64, Tree, i64),
+    __1: (i64, Tok, i64),
+    __2: (i64, Tok, i64),
+    __3: (i64, Tok, i64),
+    __4: (i64, Tok, i64),
+    __5: (i64, Tok, i64),
+    __6: (i64, Tok, i64),
+    __7: (i64, Tok, i64),
+) -> Tree
+{
+    let __start0 = __2.0.clone();
+    let __end0 = __4.2.clone();
+    let __start1 = __5.0.clone();
+    let __end1 = __7.2.clone();
+    let __temp0 = __action29(
+        __2,
+        __3,
+        __4,
+    );
+    let __temp0 = (__start0, __temp0, __end0);
+    let __temp1 = __action28(
+        __5,
+        __6,
+        __7,
+    );
+    let __temp1 = (__start1, __temp1, __end1);
+    __action25(
+        __0,
+        __1,
+        __temp0,
+        __temp1,
+    )
+}
+
+#[allow(clippy::too_many_arguments, clippy::needless_lifetimes,
+    clippy::just_underscores_and_digits, clippy::clone_on_copy, clippy::unit_arg)]
+fn __action43<
+>(
+    __0: (i64, Tree, i64),
+    __1: (i64, Tok, i64),
+    __2: (i64, Tok, i64),
+    __3: (i64, Tok, i64),
+    __4: (i64, Tok, i64),
+    __5: (i64, Tok, i64),
+    __6: (i64, Tok, i64),
+    __7: (i64, Tok, i64),
+) -> Tree
+{
+    let __start0 = __2.0.clone();
+    let __end0 = __4.2.clone();
+    let __start1 = __5.0.clone();
+    let __end1 = __7.2.clone();
+    let __temp0 = __action29(
+        __2,
+        __3,
+        __4,
+    );
+    let __temp0 = (__start0, __temp0, __end0);
+    let __temp1 = __action29(
+        __5,
+        __6,
+        __7,
+    );
+    let __temp1 = (__start1, __temp1, __end1);
+    __action25(
+        __0,
+        __1,
+        __temp0,
+        __temp1,
+    )
+}
+
+#[allow(clippy::too_many_arguments, clippy::needless_lifetimes,
+    clippy::just_underscores_and_digits, clippy::clone_on_copy, clippy::unit_arg)]
+fn __action44<
+>(
+    __0: (i64, Tree, i64),
+    __1: (i64, Tok, i64),
+    __2: (i64, Tok, i64),
+    __3: (i64, Tok, i64),
+    __4: (i64, Tok, i64),
+    __5: (i64, Tok, i64),
+    __6: (i64, Tok, i64),
+    __7: (i64, Tok, i64),
+    __8: (i64, Tok, i64),
+) -> Tree
+{
+    let __start0 = __2.0.clone();
+    let __end0 = __4.2.clone();
+    let __start1 = __5.0.clone();
+    let __end1 = __8.2.clone();
+    let __temp0 = __action29(
+        __2,
+        __3,
+        __4,
+    );
+    let __temp0 = (__start0, __temp0, __end0);
+    let __temp1 = __action30(
+        __5,
+        __6,
+        __7,
+        __8,
+    );
+    let __temp1 = (__start1, __temp1, __end1);
+    __action25(
+        __0,
+        __1,
+        __temp0,
+        __temp1,
+    )
+}
+
+#[allow(clippy::too_many_arguments, clippy::needless_lifetimes,
+    clippy::just_underscores_and_digits, clippy::clone_on_copy, clippy::unit_arg)]
+fn __action45<
+>(
+    __0: (i64, Tree, i64),
+    __1: (i64, Tok, i64),
+    __2: (i64, Tok, i64),
+    __3: (i64, Tok, i64),
+    __4: (i64, Tok, i64),
+    __5: (i64, Tok, i64),
+    __6: (i64, Tree, i64),
+    __7: (i64, Tok, i64),
+) -> Tree
+{
+    let __start0 = __2.0.clone();
+    let __end0 = __4.2.clone();
+    let __start1 = __5.0.clone();
+    let __end1 = __7.2.clone();
+    let __temp0 = __action29(
+        __2,
+        __3,
+        __4,
+    );
+    let __temp0 = (__start0, __temp0, __end0);
+    let __temp1 = __action24(
+        __5,
+        __6,
+        __7,
+    );
+    let __temp1 = (__start1, __temp1, __end1);
+    __action25(
+        __0,
+        __1,
+        __temp0,
+        __temp1,
+    )
+}
+
+#[allow(clippy::too_many_arguments, clippy::needless_lifetimes,
+    clippy::just_underscores_and_digits, clippy::clone_on_copy, clippy::unit_arg)]
+fn __action46<
+>(
+    __0: (i64, Tree, i64),
+    __1: (i64, Tok, i64),
+    __2: (i64, Tok, i64),
+    __3: (i64, Tok, i64),
+    __4: (i64, Tok, i64),
+    __5: (i64, Tok, i64),
+    __6: (i64, Tok, i64),
+    __7: (i64, Tok, i64),
+) -> Tree
+{
+    let __start0 = __2.0.clone();
+    let __end0 = __5.2.clone();
+    let __start1 = __6.0.clone();
+    let __end1 = __7.2.clone();
+    let __temp0 = __action30(
+        __2,
+        __3,
+        __4,
+        __5,
+    );
+    let __temp0 = (__start0, __temp0, __end0);
+    let __temp1 = __action27(
+        __6,
+        __7,
+    );
+    let __temp1 = (__start1, __temp1, __end1);
+    __action25(
+        __0,
+        __1,
+        __temp0,
+        __temp1,
+    )
+}
+
+#[allow(clippy::too_many_arguments, clippy::needless_lifetimes,
+    clippy::just_underscores_and_digits, clippy::clone_on_copy, clippy::unit_arg)]
+fn __action47<
+>(
+    __0: (i64, Tree, i64),
+    __1: (i64, Tok, i64),
+    __2: (i64, Tok, i64),
+    __3: (i64, Tok, i64),
+    __4: (i64, Tok, i64),
+    __5: (i64, Tok, i64),
+    __6: (i64, Tok, i64),
+    __7: (i64, Tok, i64),
+    __8: (i64, Tok, i64),
+) -> Tree
+{
+    let __start0 = __2.0.clone();
+    let __end0 = __5.2.clone();
+    let __start1 = __6.0.clone();
+    let __end1 = __8.2.clone();
+    let __temp0 = __action30(
+        __2,
+        __3,
+        __4,
+        __5,
+    );
+    let __temp0 = (__start0, __temp0, __end0);
+    let __temp1 = __action28(
+        __6,
+        __7,
+        __8,
+    );
+    let __temp1 = (__start1, __temp1, __end1);
+    __action25(
+        __0,
+        __1,
+        __temp0,
+        __temp1,
+    )
+}
+
+#[allow(clippy::too_many_arguments, clippy::needless_lifetimes,
+    clippy::just_underscores_and_digits, clippy::clone_on_copy, clippy::unit_arg)]
+fn __action48<
+>(
+    __0: (i64, Tree, i64),
+    __1: (i64, Tok, i64),
+    __2: (i64, Tok, i64),
+    __3: (i64, Tok, i64),
+    __4: (i64, Tok, i64),
+    __5: (i64, Tok, i64),
+    __6: (i64, Tok, i64),
+    __7: (i64, Tok, i64),
+    __8: (i64, Tok, i64),
+) -> Tree
+{
+    let __start0 = __2.0.clone();
+    let __end0 = __5.2.clone();
+    let __start1 = __6.0.clone();
+    let __end1 = __8.2.clone();
+    let __temp0 = __action30(
+        __2,
+        __3,
+        __4,
+        __5,
+    );
+    let __temp0 = (__start0, __temp0, __end0);
+    let __temp1 = __action29(
+        __6,
+        __7,
+        __8,
+    );
+    let __temp1 = (__start1, __temp1, __end1);
+    __action25(
+        __0,
+        __1,
+        __temp0,
+        __temp1,
+    )
+}
+
+#[allow(clippy::too_many_arguments, clippy::needless_lifetimes,
+    clippy::just_underscores_and_digits, clippy::clone_on_copy, clippy::unit_arg)]
+fn __action49<
+>(
+    __0: (i64, Tree, i64),
+    __1: (i64, Tok, i64),
+    __2: (i64, Tok, i64),
+    __3: (i64, Tok, i64),
+    __4: (i64, Tok, i64),
+    __5: (i64, Tok, i64),
+    __6: (i64, Tok, i64),
+    __7: (i64, Tok, i64),
+    __8: (i64, Tok, i64),
+    __9: (i64, Tok, i64),
+) -> Tree
+{
+    let __start0 = __2.0.clone();
+    let __end0 = __5.2.clone();
+    let __start1 = __6.0.clone();
+    let __end1 = __9.2.clone();
+    let __temp0 = __action30(
+        __2,
+        __3,
+        __4,
+        __5,
+    );
+    let __temp0 = (__start0, __temp0, __end0);
+    let __temp1 = __action30(
+        __6,
+        __7,
+        __8,
+        __9,
+    );
+    let __temp1 = (__start1, __temp1, __end1);
+    __action25(
+        __0,
+        __1,
+        __temp0,
+        __temp1,
+    )
+}
+
+#[allow(clippy::too_many_arguments, clippy::needless_lifetimes,
+    clippy::just_underscores_and_digits, clippy::clone_on_copy, clippy::unit_arg)]
+fn __action50<
+>(
+    __0: (i64, Tree, i64),
+    __1: (i64, Tok, i64),
+    __2: (i64, Tok, i64),
+    __3: (i64, Tok, i64),
+    __4: (i64, Tok, i64),
+    __5: (i64, Tok, i64),
+    __6: (i64, Tok, i64),
+    __7: (i64, Tree, i64),
+    __8: (i64, Tok, i64),
+) -> Tree
+{
+    let __start0 = __2.0.clone();
+    let __end0 = __5.2.clone();
+    let __start1 = __6.0.clone();
+    let __end1 = __8.2.clone();
+    let __temp0 = __action30(
+        __2,
+        __3,
+        __4,
+        __5,
+    );
+    let __temp0 = (__start0, __temp0, __end0);
+    let __temp1 = __action24(
+        __6,
+        __7,
+        __8,
+    );
+    let __temp1 = (__start1, __temp1, __end1);
+    __action25(
+        __0,
+        __1,
+        __temp0,
+        __temp1,
+    )
+}
+
+#[allow(clippy::too_many_arguments, clippy::needless_lifetimes,
+    clippy::just_underscores_and_digits, clippy::clone_on_copy, clippy::unit_arg)]
+fn __action51<
+>(
+    __0: (i64, Tree, i64),
+    __1: (i64, Tok, i64),
+    __2: (i64, Tok, i64),
+    __3: (i64, Tree, i64),
+    __4: (i64, Tok, i64),
+    __5: (i64, Tok, i64),
+    __6: (i64, Tok, i64),
+) -> Tree
+{
+    let __start0 = __2.0.clone();
+    let __end0 = __4.2.clone();
+    let __start1 = __5.0.clone();
+    let __end1 = __6.2.clone();
+    let __temp0 = __action24(
+        __2,
+        __3,
+        __4,
+    );
+    let __temp0 = (__start0, __temp0, __end0);
+    let __temp1 = __action27(
+        __5,
+        __6,
+    );
+    let __temp1 = (__start1, __temp1, __end1);
+    __action25(
+        __0,
+        __1,
+        __temp0,
+        __temp1,
+    )
+}
+
+#[allow(clippy::too_many_arguments, clippy::needless_lifetimes,
+    clippy::just_underscores_and_digits, clippy::clone_on_copy, clippy::unit_arg)]
+fn __action52<
+>(
+    __0: (i64, Tree, i64),
+    __1: (i64, Tok, i64),
+    __2: (i64, Tok, i64),
+    __3: (i64, Tree, i64),
+    __4: (i64, Tok, i64),
+    __5: (i64, Tok, i64),
+    __6: (i64, Tok, i64),
+    __7: (i64, Tok, i64),
+) -> Tree
+{
+    let __start0 = __2.0.clone();
+    let __end0 = __4.2.clone();
+    let __start1 = __5.0.clone();
+    let __end1 = __7.2.clone();
+    let __temp0 = __action24(
+        __2,
+        __3,
+        __4,
+    );
+    let __temp0 = (__start0, __temp0, __end0);
+    let __temp1 = __action28(
+        __5,
+        __6,
+        __7,
+    );
+    let __temp1 = (__start1, __temp1, __end1);
+    __action25(
+        __0,
+        __1,
+        __temp0,
+        __temp1,
+    )
+}
+
+#[allow(clippy::too_many_arguments, clippy::needless_lifetimes,
+    clippy::just_underscores_and_digits, clippy::clone_on_copy, clippy::unit_arg)]
+fn __action53<
+>(
+    __0: (i64, Tree, i64),
+    __1: (i64, Tok, i64),
+    __2: (i64, Tok, i64),
+    __3: (i64, Tree, i64),
+    __4: (i64, Tok, i64),
+    __5: (i64, Tok, i64),
+    __6: (i64, Tok, i64),
+    __7: (i64, Tok, i64),
+) -> Tree
+{
+    let __start0 = __2.0.clone();
+    let __end0 = __4.2.clone();
+    let __start1 = __5.0.clone();
+    let __end1 = __7.2.clone();
+    let __temp0 = __action24(
+        __2,
+        __3,
+        __4,
+    );
+    let __temp0 = (__start0, __temp0, __end0);
+    let __temp1 = __action29(
+        __5,
+        __6,
+        __7,
+    );
+    let __temp1 = (__start1, __temp1, __end1);
+    __action25(
+        __0,
+        __1,
+        __temp0,
+        __temp1,
+    )
+}
+
+#[allow(clippy::too_many_arguments, clippy::needless_lifetimes,
+    clippy::just_underscores_and_digits, clippy::clone_on_copy, clippy::unit_arg)]
+fn __action54<
+>(
+    __0: (i64, Tree, i64),
+    __1: (i64, Tok, i64),
+    __2: (i64, Tok, i64),
+    __3: (i64, Tree, i64),
+    __4: (i64, Tok, i64),
+    __5: (i64, Tok, i64),
+    __6: (i64, Tok, i64),
+    __7: (i64, Tok, i64),
+    __8: (i64, Tok, i64),
+) -> Tree
+{
+    let __start0 = __2.0.clone();
+    let __end0 = __4.2.clone();
+    let __start1 = __5.0.clone();
+    let __end1 = __8.2.clone();
+    let __temp0 = __action24(
+        __2,
+        __3,
+        __4,
+    );
+    let __temp0 = (__start0, __temp0, __end0);
+    let __temp1 = __action30(
+        __5,
+        __6,
+        __7,
+        __8,
+    );
+    let __temp1 = (__start1, __temp1, __end1);
+    __action25(
+        __0,
+        __1,
+        __temp0,
+        __temp1,
+    )
+}
+
+#[allow(clippy::too_many_arguments, clippy::needless_lifetimes,
+    clippy::just_underscores_and_digits, clippy::clone_on_copy, clippy::unit_arg)]
+fn __action55<
+>(
+    __0: (i64, Tree, i64),
+    __1: (i64, Tok, i64),
+    __2: (i64, Tok, i64),
+    __3: (i64, Tree, i64),
+    __4: (i64, Tok, i64),
+    __5: (i64, Tok, i64),
+    __6: (i64, Tree, i64),
+    __7: (i64, Tok, i64),
+) -> Tree
+{
+    let __start0 = __2.0.clone();
+    let __end0 = __4.2.clone();
+    let __start1 = __5.0.clone();
+    let __end1 = __7.2.clone();
+    let __temp0 = __action24(
+        __2,
+        __3,
+        __4,
+    );
+    let __temp0 = (__start0, __temp0, __end0);
+    let __temp1 = __action24(
+        __5,
+        __6,
+        __7,
+    );
+    let __temp1 = (__start1, __temp1, __end1);
+    __action25(
+        __0,
+        __1,
+        __temp0,
+        __temp1,
+    )
+}
+
+#[allow(clippy::too_many_arguments, clippy::needless_lifetimes,
+    clippy::just_underscores_and_digits, clippy::clone_on_copy, clippy::unit_arg)]
+fn __action56<
+>(
+    __0: (i64, Tok, i64),
+    __1: (i64, Tok, i64),
+) -> Tree
+{
+    let __start0 = __0.0.clone();
+    let __end0 = __1.2.clone();
+    let __temp0 = __action27(
+        __0,
+        __1,
+    );
+    let __temp0 = (__start0, __temp0, __end0);
+    __action26(
+        __temp0,
+    )
+}
+
+#[allow(clippy::too_many_arguments, clippy::needless_lifetimes,
+    clippy::just_underscores_and_digits, clippy::clone_on_copy, clippy::unit_arg)]
+fn __action57<
+>(
+    __0: (i64, Tok, i64),
+    __1: (i64, Tok, i64),
+    __2: (i64, Tok, i64),
+) -> Tree
+{
+    let __start0 = __0.0.clone();
+    let __end0 = __2.2.clone();
+    let __temp0 = __action28(
+        __0,
+        __1,
+        __2,
+    );
+    let __temp0 = (__start0, __temp0, __end0);
+    __action26(
+        __temp0,
+    )
+}
+
+#[allow(clippy::too_many_arguments, clippy::needless_lifetimes,
+    clippy::just_underscores_and_digits, clippy::clone_on_copy, clippy::unit_arg)]
+fn __action58<
+>(
+    __0: (i64, Tok, i64),
+    __1: (i64, Tok, i64),
+    __2: (i64, Tok, i64),
+) -> Tree
+{
+    let __start0 = __0.0.clone();
+    let __end0 = __2.2.clone();
+    let __temp0 = __action29(
+        __0,
+        __1,
+        __2,
+    );
+    let __temp0 = (__start0, __temp0, __end0);
+    __action26(
+        __temp0,
+    )
+}
+
+#[allow(clippy::too_many_arguments, clippy::needless_lifetimes,
+    clippy::just_underscores_and_digits, clippy::clone_on_copy, clippy::unit_arg)]
+fn __action59<
+>(
+    __0: (i64, Tok, i64),
+    __1: (i64, Tok, i64),
+    __2: (i64, Tok, i64),
+    __3: (i64, Tok, i64),
+) -> Tree
+{
+    let __start0 = __0.0.clone();
+    let __end0 = __3.2.clone();
+    let __temp0 = __action30(
+        __0,
+        __1,
+        __2,
+        __3,
+    );
+    let __temp0 = (__start0, __temp0, __end0);
+    __action26(
+        __temp0,
+    )
+}
+
+#[allow(clippy::too_many_arguments, clippy::needless_lifetimes,
+    clippy::just_underscores_and_digits, clippy::clone_on_copy, clippy::unit_arg)]
+fn __action60<
+>(
+    __0: (i64, Tok, i64),
+    __1: (i64, Tree, i64),
+    __2: (i64, Tok, i64),
+) -> Tree
+{
+    let __start0 = __0.0.clone();
+    let __end0 = __2.2.clone();
+    let __temp0 = __action24(
+        __0,
+        __1,
+        __2,
+    );
+    let __temp0 = (__start0, __temp0, __end0);
+    __action26(
+        __temp0,
     )
 }
 
 #[allow(clippy::type_complexity, dead_code)]
-pub trait ___ToTriple<>
+pub trait __ToTriple<>
 {
-    fn to_triple(self) -> Result<(i64,Tok,i64), ___lalrpop_util::ParseError<i64, Tok, u64>>;
+    fn to_triple(self) -> Result<(i64,Tok,i64), __lalrpop_util::ParseError<i64, Tok, u64>>;
 }
 
-impl<> ___ToTriple<> for (i64, Tok, i64)
+impl<> __ToTriple<> for (i64, Tok, i64)
 {
-    fn to_triple(self) -> Result<(i64,Tok,i64), ___lalrpop_util::ParseError<i64, Tok, u64>> {
+    fn to_triple(self) -> Result<(i64,Tok,i64), __lalrpop_util::ParseError<i64, Tok, u64>> {
         Ok(self)
     }
 }
-impl<> ___ToTriple<> for Result<(i64, Tok, i64), u64>
+impl<> __ToTriple<> for Result<(i64, Tok, i64), u64>
 {
-    fn to_triple(self) -> Result<(i64,Tok,i64), ___lalrpop_util::ParseError<i64, Tok, u64>> {
-        self.map_err(|error| ___lalrpop_util::ParseError::User { error })
+    fn to_triple(self) -> Result<(i64,Tok,i64), __lalrpop_util::ParseError<i64, Tok, u64>> {
+        self.map_err(|error| __lalrpop_util::ParseError::User { error })
     }
 }
